@@ -54,9 +54,10 @@ from __future__ import annotations
 import ast
 import json
 from fractions import Fraction
-from typing import Dict, List, Optional, Set, Tuple
+from typing import Dict, List, Optional, Sequence, Set, Tuple
 
 from engines import c38facts as cf
+from engines import c38norm as cn
 from engines import pyfacts as pf
 from engines.common import AnalysisError, Ctx, read_repo
 
@@ -225,9 +226,45 @@ def check_slots(ctx: Ctx, m: pf.Module, cls: ast.ClassDef) -> Tuple[List[str], L
 
 def _dict_return(fn: pf.FuncDef, where: str) -> ast.Dict:
     rets = [n for n in pf.walk_shallow(fn) if isinstance(n, ast.Return)]
+    if len(rets) == 1 and isinstance(rets[0].value, ast.Name):
+        # `plan = {...}; return plan` with no other use of the local (nothing added to / removed from the dict in between)
+        nm = rets[0].value.id
+        d = pf.single_def(fn, nm)
+        uses = [n for n in pf.walk_shallow(fn) if isinstance(n, ast.Name) and n.id == nm and isinstance(n.ctx, ast.Load)]
+        if isinstance(d, ast.Dict) and len(uses) == 1:
+            return d
     if len(rets) != 1 or not isinstance(rets[0].value, ast.Dict):
         raise AnalysisError(f'{where}: expected a single `return {{...}}`')
     return rets[0].value
+
+
+def _resolved_value(fn: pf.FuncDef, v: ast.AST, alias: Dict[str, str]) -> ast.AST:
+    """Copy of an expression of `fn` with single-definition locals replaced by their definitions and reads of trivial property getters
+    (`self.prop` with `return self._slot`) replaced by the slot."""
+    import copy as _copy
+    e = _copy.deepcopy(pf.expand_locals(fn, v, depth=4))
+    if alias and fn.args.args:
+        e = cf._PropReads(fn.args.args[0].arg, alias).visit(e)
+    return ast.fix_missing_locations(e)
+
+
+def _data_reads(v: ast.AST) -> Set[str]:
+    """Attributes of self whose DATA the expression serialises: every `self.x` read, except inside the receiver of `<type>._convert_to_json(data)`
+    (the receiver is the type object that drives the conversion, e.g. tarray(tinterval(tlocus(self._reference_genome))))."""
+    skip: Set[int] = set()
+    for c in ast.walk(v):
+        if isinstance(c, ast.Call) and isinstance(c.func, ast.Attribute) and c.func.attr == '_convert_to_json':
+            skip |= {id(n) for n in ast.walk(c.func.value)}
+    return {n.attr for n in ast.walk(v) if isinstance(n, ast.Attribute) and isinstance(n.value, ast.Name) and n.value.id == 'self' and id(n) not in skip}
+
+
+def _free_locals(fn: pf.FuncDef, e: ast.AST) -> Set[str]:
+    """Names read in `e` that are locals of `fn` (bound by an assignment / loop / with there) and not bound inside `e` itself by a comprehension."""
+    bound = {n.id for g in ast.walk(e) if isinstance(g, ast.comprehension) for n in ast.walk(g.target) if isinstance(n, ast.Name)}
+    bound |= {a.arg for lam in ast.walk(e) if isinstance(lam, ast.Lambda) for a in lam.args.args}
+    defs = pf.assignments(fn)
+    params = {a.arg for a in fn.args.posonlyargs + fn.args.args + fn.args.kwonlyargs}
+    return {n.id for n in ast.walk(e) if isinstance(n, ast.Name) and isinstance(n.ctx, ast.Load) and n.id in defs and n.id not in bound and n.id not in params}
 
 
 def check_roundtrip(ctx: Ctx, m: pf.Module, cls: ast.ClassDef, ser: List[str]) -> None:
@@ -238,10 +275,17 @@ def check_roundtrip(ctx: Ctx, m: pf.Module, cls: ast.ClassDef, ser: List[str]) -
     init = methods['__init__']
     d = _dict_return(td, f'{F}::{CLS}.to_dict')
     keys: Dict[str, ast.expr] = {}
+    alias = cf.ClassModel(m, CLS).getter_alias()
+    unresolved: Dict[str, Set[str]] = {}   # key -> locals of to_dict its value still reads (built by statements, not by one expression)
     for k, v in zip(d.keys, d.values):
         if not (isinstance(k, ast.Constant) and isinstance(k.value, str)):
             raise AnalysisError(f'{F}::{CLS}.to_dict: non-literal key `{pf.nsrc(k) if k is not None else "**"}`')
-        keys[k.value] = v
+        rv0 = _resolved_value(td, v, alias)
+        ast.copy_location(rv0, v)
+        keys[k.value] = rv0  # type: ignore[assignment]
+        fl = _free_locals(td, rv0)
+        if fl:
+            unresolved[k.value] = fl
     ctx.need('name' in keys, 'to_dict has no `name` key')
     params = [a.arg for a in init.args.kwonlyargs] + [a.arg for a in init.args.args[1:]]
     required = [a.arg for a, dflt in zip(init.args.kwonlyargs, init.args.kw_defaults) if dflt is None]
@@ -269,11 +313,15 @@ def check_roundtrip(ctx: Ctx, m: pf.Module, cls: ast.ClassDef, ser: List[str]) -
                     f'{p}={dflt if dflt is not None else "<missing: TypeError>"} whatever it was created with' + (f'; it is read by {readers}' if readers else ''),
                     m.path, td.lineno)
             continue
-        rd = {n.attr for n in ast.walk(v) if isinstance(n, ast.Attribute) and isinstance(n.value, ast.Name) and n.value.id == 'self'}
-        ctx.check(rd == {s}, 'R2', cons, f'to_dict writes key `{p}` from {sorted("self." + x for x in rd)} but __init__ restores parameter `{p}` into `self.{s}`: '
+        rd = _data_reads(v)
+        # a violation needs a value that is fully resolved, reads declared slots and not the one the parameter restores
+        ctx.need(p not in unresolved or s in rd, f'{cons}: the value of key `{p}` is built from local(s) {sorted(unresolved.get(p, []))} that are not single expressions')
+        if s not in rd:
+            ctx.need(rd and rd <= set(ser), f'{cons}: key `{p}` is computed from {sorted("self." + x for x in rd)}; which field it saves is not recognised')
+        ctx.check(s in rd, 'R2', cons, f'to_dict writes key `{p}` from {sorted("self." + x for x in rd)} but __init__ restores parameter `{p}` into `self.{s}`: '
                   f'after a reload the plan continues with another field\'s value', m.path, v.lineno)
         # ... and every entry of a list-valued slot is written (no slice, no filter; a binned slot is flattened over all its bins)
-        if rd == {s}:
+        if s in rd:
             lost = _listing_problem(v, s)
             if lost is not None:
                 ctx.need(lost != '?', f'{cons}: how to_dict lists the entries of self.{s} is not recognised: `{pf.nsrc(v)[:80]}`')
@@ -282,7 +330,11 @@ def check_roundtrip(ctx: Ctx, m: pf.Module, cls: ast.ClassDef, ser: List[str]) -
     # (b) every key is a parameter, (c) required parameters are written
     for k, v in keys.items():
         if k == 'name':
-            ctx.check(pf.nsrc(v) in ('self.__class__.__name__', f'{CLS}.__name__', f"'{CLS}'"), 'R2', f'{F}::{CLS}.to_dict::name',
+            is_name = pf.nsrc(v) in ('self.__class__.__name__', f'{CLS}.__name__', f"'{CLS}'", 'type(self).__name__', '__class__.__name__', 'self.__class__.__qualname__',
+                                     f'{CLS}.__qualname__', 'type(self).__qualname__')
+            # another string literal is a recognised shape that breaks the rule; any other expression is not evaluated here
+            ctx.need(is_name or (isinstance(v, ast.Constant) and isinstance(v.value, str)), f'{F}::{CLS}.to_dict::name: unrecognised value `{pf.nsrc(v)[:60]}`')
+            ctx.check(is_name, 'R2', f'{F}::{CLS}.to_dict::name',
                       f'`name` is written as `{pf.nsrc(v)}`; the decoder recognises a plan by name == {CLS}.__name__', m.path, v.lineno)
             continue
         ctx.check(k in params, 'R2', f'{F}::{CLS}.to_dict::key {k}', f'to_dict writes key `{k}` which is not a parameter of __init__: '
@@ -292,15 +344,53 @@ def check_roundtrip(ctx: Ctx, m: pf.Module, cls: ast.ClassDef, ser: List[str]) -
 
     # (e) transformed values have an inverse
     dec = m.cls('Decoder')
-    hook = _methods(dec).get('_object_hook')
-    ctx.need(hook is not None, 'anchor vanished: Decoder._object_hook')
+    hook0 = _methods(dec).get('_object_hook')
+    ctx.need(hook0 is not None, 'anchor vanished: Decoder._object_hook')
+    hook = _hook_with_obj(hook0)
+    HW = f'{F}::Decoder._object_hook'
     rewrites: Dict[str, ast.expr] = {}
     for st in pf.walk_shallow(hook):
         if isinstance(st, ast.Assign) and len(st.targets) == 1 and isinstance(st.targets[0], ast.Subscript) and pf.nsrc(st.targets[0].value) == 'obj':
             sl = st.targets[0].slice
-            if isinstance(sl, ast.Constant) and isinstance(sl.value, str):
-                rewrites[sl.value] = st.value
+            ctx.need(isinstance(sl, ast.Constant) and isinstance(sl.value, str), f'{HW}: store to a computed key `{pf.nsrc(st.targets[0])[:40]}`')
+            ctx.need(sl.value not in rewrites, f'{HW}: key `{sl.value}` is rewritten twice')
+            rewrites[sl.value] = st.value
+    # anything else that may change the decoded dict (obj.update(..), obj passed to a helper, a second dict) is not modelled
+    for c in pf.calls_in(hook):
+        if isinstance(c.func, ast.Attribute) and pf.nsrc(c.func.value) == 'obj':
+            ctx.need(c.func.attr in ('get', 'pop', 'keys', 'items', 'values', '__contains__'), f'{HW}: `{pf.nsrc(c)[:50]}` is not modelled')
+            ctx.need(c.func.attr != 'pop' or (c.args and isinstance(c.args[0], ast.Constant) and c.args[0].value == 'name'), f'{HW}: `{pf.nsrc(c)[:50]}` is not modelled')
+        elif any(isinstance(a, ast.Name) and a.id == 'obj' for a in c.args) or any(isinstance(k.value, ast.Name) and k.value.id == 'obj' and k.arg is not None for k in c.keywords):
+            raise AnalysisError(f'{HW}: the decoded dict is handed to `{pf.nsrc(c.func)[:40]}`; what that does to it is not modelled')
     local_defs = pf.assignments(hook)
+    module_callables = {q.split('.')[-1] for q, _f in m.functions()}
+
+    def reader_of(k: str, rv: ast.expr) -> Tuple[Set[str], List[str]]:
+        """(subscripts of obj the rewritten value is computed from, dotted names of the calls that compute it), following the locals of the hook.
+        Declines when the value flows through something that is not a single expression (a list filled by a loop, a helper of this module)."""
+        srcs: Set[str] = set()
+        calls: List[str] = []
+        seen: Set[str] = set()
+        work: List[ast.AST] = [rv]
+        while work:
+            e = work.pop()
+            bound = {n.id for g in ast.walk(e) if isinstance(g, ast.comprehension) for n in ast.walk(g.target) if isinstance(n, ast.Name)}
+            for n in ast.walk(e):
+                if isinstance(n, ast.Subscript) and pf.nsrc(n.value) == 'obj':
+                    srcs.add(pf.nsrc(n))
+                elif isinstance(n, ast.Call):
+                    d = pf.dotted(n.func) or pf.nsrc(n.func)
+                    calls.append(d)
+                    last = d.split('.')[-1]
+                    if last in module_callables and last not in ('_convert_from_json', '_from_json'):
+                        raise AnalysisError(f'{HW}::{k}: the value is computed by `{d}` of this module, which is not followed')
+                elif isinstance(n, ast.Name) and isinstance(n.ctx, ast.Load) and n.id in local_defs and n.id not in bound and n.id != 'obj' and n.id not in seen:
+                    seen.add(n.id)
+                    for dv in local_defs[n.id]:
+                        if not isinstance(dv, ast.expr) or (isinstance(dv, (ast.List, ast.Dict, ast.Set)) and not getattr(dv, 'elts', getattr(dv, 'keys', None))):
+                            raise AnalysisError(f'{HW}::{k}: local `{n.id}` is not defined by a single expression')
+                        work.append(dv)
+        return srcs, calls
     for k, v in keys.items():
         if k == 'name':
             continue
@@ -311,22 +401,18 @@ def check_roundtrip(ctx: Ctx, m: pf.Module, cls: ast.ClassDef, ser: List[str]) -
                 rv = rewrites[k]
                 ident = isinstance(rv, ast.Call) and pf.dotted(rv.func) in ('list', 'tuple', 'dict', 'set', 'str', 'int', 'bool') and len(rv.args) == 1 \
                     and pf.nsrc(rv.args[0]) == f"obj['{k}']"
-                ctx.need(ident or f"obj['{k}']" in {pf.nsrc(n) for n in ast.walk(rv) if isinstance(n, ast.Subscript)}, f'{F}::Decoder._object_hook: unrecognised rewrite of `{k}`')
+                srcs, calls = reader_of(k, rv)
+                ctx.need(ident or f"obj['{k}']" in srcs, f'{HW}: unrecognised rewrite of `{k}`')
                 ctx.check(ident, 'R2', f'{F}::Decoder._object_hook::{k}', f'to_dict writes `{k}` as the raw field `self.{s}` but the decoder replaces it by `{pf.nsrc(rv)[:70]}`: '
                           f'the reloaded plan differs from the saved one (a resumed run continues with other {k} than the interrupted one)', m.path, rv.lineno)
             continue
         cons = f'{F}::Decoder._object_hook::{k}'
         if k in rewrites:
             rv = rewrites[k]
-            # the rewritten value must be computed from obj[k] (possibly through one local)
-            srcs = {pf.nsrc(n) for n in ast.walk(rv) if isinstance(n, ast.Subscript)}
-            names = [n.id for n in ast.walk(rv) if isinstance(n, ast.Name)]
-            for nm in names:
-                for dv in local_defs.get(nm, []):
-                    if isinstance(dv, ast.expr):
-                        srcs |= {pf.nsrc(n) for n in ast.walk(dv) if isinstance(n, ast.Subscript)}
-            ok = f"obj['{k}']" in srcs or any(isinstance(g, ast.comprehension) and pf.nsrc(g.iter) == f"obj['{k}']" for g in ast.walk(rv))
-            inv = _inverse_ok(k, v, rv, local_defs)
+            # the rewritten value must be computed from obj[k] (possibly through locals)
+            srcs, r_calls = reader_of(k, rv)
+            ok = f"obj['{k}']" in srcs
+            inv = _inverse_ok(k, v, r_calls)
             # a comprehension that rebuilds the entries must run over all of them
             for g in [g for g in ast.walk(rv) if isinstance(g, ast.comprehension) and f"obj['{k}']" in {pf.nsrc(n) for n in ast.walk(g.iter)}]:
                 it = g.iter
@@ -337,20 +423,77 @@ def check_roundtrip(ctx: Ctx, m: pf.Module, cls: ast.ClassDef, ser: List[str]) -
                 ctx.need(part is not None or pf.nsrc(it) == f"obj['{k}']", f'{cons}: unrecognised iteration `{pf.nsrc(g.iter)[:50]}`')
                 if part is not None and inv is None:
                     inv = f'the decoder rebuilds `{k}` with `{pf.nsrc(rv)[:70]}`, which {part}: entries of the saved plan are dropped on every reload and never merged'
+            # "computed from another key" is evidence only when some saved key is read at all; a value that reads no key of obj is not understood
+            ctx.need(ok or srcs, f'{cons}: cannot tell what `{pf.nsrc(rv)[:60]}` is computed from')
             ctx.check(ok and inv is None, 'R2', cons, (inv or f'the decoder rewrites obj[\'{k}\'] from {sorted(srcs)} instead of from the saved value of `{k}`') +
                       ': the reloaded plan differs from the saved one', m.path, rv.lineno)
         elif k in wraps_set and not (k in ENCODER_TYPED):
             ctx.ok('R2', cons, 'normalised by __init__ (set(...))')
+        elif s is not None and _json_identity(v, s):
+            ctx.ok('R2', cons, 'written as a copy of the field (the same JSON as the raw field)', nontrivial=False)
         else:
+            # evidence of a lossy encoding: one of the encodings this analysis knows the inverse of, with no inverse on the reading side
+            w_calls = [pf.dotted(c.func) or pf.nsrc(c.func) for c in ast.walk(v) if isinstance(c, ast.Call)]
+            known = k in ENCODER_TYPED or 'str' in w_calls or any(c.endswith('._convert_to_json') for c in w_calls) \
+                or (k == 'vdses' and _listing_problem(v, s or '') is None and isinstance(v, (ast.ListComp, ast.Call)))
+            ctx.need(known and k not in unresolved, f'{cons}: to_dict writes `{k}` as `{pf.nsrc(v)[:60]}`; whether that needs decoding is not recognised')
             ctx.bad('R2', cons, f'to_dict writes `{k}` as `{pf.nsrc(v)[:80]}` (not the raw field) but neither Decoder._object_hook nor __init__ converts it back',
                     m.path, v.lineno)
     for k, rv in rewrites.items():
         ctx.check(k in keys, 'R2', f'{F}::Decoder._object_hook::rewrites {k}', f'the decoder rewrites obj[\'{k}\'], which to_dict never writes: KeyError on every reload', m.path, rv.lineno)
     # the hook ends in CLS(**obj) after deleting 'name'
     calls = [c for c in pf.calls_in(hook) if pf.dotted(c.func) == CLS]
-    ok = len(calls) == 1 and not calls[0].args and len(calls[0].keywords) == 1 and calls[0].keywords[0].arg is None and pf.nsrc(calls[0].keywords[0].value) == 'obj'
+    ctx.need(len(calls) == 1 and not calls[0].args and len(calls[0].keywords) == 1 and calls[0].keywords[0].arg is None and pf.nsrc(calls[0].keywords[0].value) == 'obj',
+             f'{HW}: expected exactly one `{CLS}(**<decoded dict>)`')
     dels = [pf.nsrc(t) for st in pf.walk_shallow(hook) if isinstance(st, ast.Delete) for t in st.targets]
-    ctx.check(ok and "obj['name']" in dels, 'R2', f'{F}::Decoder._object_hook::constructs', f'the hook must delete obj[\'name\'] and return {CLS}(**obj)', m.path, hook.lineno)
+    pops = [c for c in pf.calls_in(hook) if isinstance(c.func, ast.Attribute) and c.func.attr == 'pop' and pf.nsrc(c.func.value) == 'obj' and c.args
+            and isinstance(c.args[0], ast.Constant) and c.args[0].value == 'name']
+    ctx.check("obj['name']" in dels or bool(pops), 'R2', f'{F}::Decoder._object_hook::constructs',
+              f'the hook returns {CLS}(**obj) without removing the `name` key to_dict adds: __init__ has no such parameter, every reload raises TypeError', m.path, hook.lineno)
+
+
+def _hook_with_obj(hook: pf.FuncDef) -> pf.FuncDef:
+    """The decoder hook with its dict parameter called `obj` (a copy when it has to be renamed; the name is the maintainer's choice)."""
+    params = [a.arg for a in hook.args.posonlyargs + hook.args.args if a.arg not in ('self', 'cls')]
+    if len(params) != 1 or hook.args.vararg or hook.args.kwarg or hook.args.kwonlyargs:
+        raise AnalysisError(f'{F}::Decoder._object_hook: expected one parameter (the decoded dict)')
+    if params[0] == 'obj':
+        return hook
+    if any(isinstance(n, ast.Name) and n.id == 'obj' for n in ast.walk(hook)):
+        raise AnalysisError(f'{F}::Decoder._object_hook: a second name `obj` besides the parameter `{params[0]}`')
+    import copy as _copy
+    h2 = _copy.deepcopy(hook)
+    for n in ast.walk(h2):
+        if isinstance(n, ast.Name) and n.id == params[0]:
+            n.id = 'obj'
+        elif isinstance(n, ast.arg) and n.arg == params[0]:
+            n.arg = 'obj'
+    return h2
+
+
+def _json_identity(v: ast.AST, slot: str) -> bool:
+    """The value is the field itself or a copy that serialises to the same JSON: list(x) / tuple(x) / x[:] / x.copy() / dict(x) / [y for y in x],
+    possibly under a None guard (`None if x is None else <copy>`)."""
+    if isinstance(v, ast.IfExp):
+        t = v.test
+        none_test = isinstance(t, ast.Compare) and len(t.ops) == 1 and isinstance(t.ops[0], (ast.Is, ast.IsNot)) and cf.self_attr(t.left) == slot \
+            and isinstance(t.comparators[0], ast.Constant) and t.comparators[0].value is None
+        if not none_test:
+            return False
+        none_arm, other = (v.body, v.orelse) if isinstance(t.ops[0], ast.Is) else (v.orelse, v.body)  # type: ignore[union-attr]
+        return isinstance(none_arm, ast.Constant) and none_arm.value is None and _json_identity(other, slot)
+    if cf.self_attr(v) == slot:
+        return True
+    if isinstance(v, ast.Call) and pf.dotted(v.func) in ('list', 'tuple', 'dict') and len(v.args) == 1 and not v.keywords:
+        return _json_identity(v.args[0], slot)
+    if isinstance(v, ast.Call) and isinstance(v.func, ast.Attribute) and v.func.attr == 'copy' and not v.args and not v.keywords:
+        return _json_identity(v.func.value, slot)
+    if isinstance(v, ast.Subscript) and isinstance(v.slice, ast.Slice) and v.slice.lower is None and v.slice.upper is None and v.slice.step is None:
+        return _json_identity(v.value, slot)
+    if isinstance(v, ast.ListComp) and len(v.generators) == 1 and not v.generators[0].ifs and isinstance(v.generators[0].target, ast.Name) \
+            and isinstance(v.elt, ast.Name) and v.elt.id == v.generators[0].target.id:
+        return _json_identity(v.generators[0].iter, slot)
+    return False
 
 
 
@@ -474,14 +617,9 @@ def _default_of(init: pf.FuncDef, p: str) -> Optional[str]:
     return None
 
 
-def _inverse_ok(k: str, wv: ast.expr, rv: ast.expr, local_defs) -> Optional[str]:
-    """Recognised writer/reader pairs; returns a problem text or None."""
+def _inverse_ok(k: str, wv: ast.expr, r_calls: List[str]) -> Optional[str]:
+    """Recognised writer/reader pairs; returns a problem text or None.  `r_calls`: the calls that compute the decoder's value (locals followed)."""
     w_calls = [pf.dotted(c.func) or pf.nsrc(c.func) for c in ast.walk(wv) if isinstance(c, ast.Call)]
-    r_calls = [pf.dotted(c.func) or pf.nsrc(c.func) for c in ast.walk(rv) if isinstance(c, ast.Call)]
-    for nm in [n.id for n in ast.walk(rv) if isinstance(n, ast.Name)]:
-        for dv in local_defs.get(nm, []):
-            if isinstance(dv, ast.expr):
-                r_calls += [pf.dotted(c.func) or pf.nsrc(c.func) for c in ast.walk(dv) if isinstance(c, ast.Call)]
     if any(c.endswith('._convert_to_json') for c in w_calls):
         return None if any(c.endswith('._convert_from_json') for c in r_calls) else f'`{k}` is written with _convert_to_json but not read back with _convert_from_json'
     if 'str' in w_calls:
@@ -494,65 +632,250 @@ def _inverse_ok(k: str, wv: ast.expr, rv: ast.expr, local_defs) -> Optional[str]
 
 
 # ---------------------------------------------------------------------------------------------------------------------------
-def _empty_conjuncts(e: ast.AST) -> Optional[Set[str]]:
-    """Slots that `e` requires to be empty: `not self.a and not self.b`, `not (self.a or self.b)`, `len(self.a) == 0 and ...`."""
+def _empty_conjuncts(e: ast.AST, cm: Optional[cf.ClassModel] = None) -> Optional[Set[str]]:
+    """Slots that `e` requires to be empty: `not self.a and not self.b`, `not (self.a or self.b)`, `len(self.a) == 0 and ...`, `not bool(self.a)`,
+    `self.count == 0` for a property getter `count` that returns len(self.a) / the total length of the bins of self.a."""
+    def unwrap(x: ast.AST) -> ast.AST:
+        while isinstance(x, ast.Call) and pf.dotted(x.func) in ('bool', 'len') and len(x.args) == 1 and not x.keywords:
+            x = x.args[0]
+        return x
+
+    def counted(x: ast.AST) -> Optional[str]:
+        """x is a number that is 0 exactly when slot S holds no entry: len(self.S), or a getter returning len(self.S) / sum(len(v) for v in self.S.values())."""
+        if isinstance(x, ast.Call) and pf.dotted(x.func) == 'len' and len(x.args) == 1 and cf.self_attr(x.args[0]) is not None:
+            return cf.self_attr(x.args[0])
+        a = cf.self_attr(x)
+        if a is not None and cm is not None and a in cm.getters:
+            body = cf._strip_doc(cm.getters[a].body)
+            if len(body) == 1 and isinstance(body[0], ast.Return) and body[0].value is not None:
+                r = body[0].value
+                if isinstance(r, ast.Call) and pf.dotted(r.func) == 'len' and len(r.args) == 1 and cf.self_attr(r.args[0]) is not None:
+                    return cf.self_attr(r.args[0])
+                if isinstance(r, ast.Call) and pf.dotted(r.func) == 'sum' and len(r.args) == 1 and isinstance(r.args[0], (ast.GeneratorExp, ast.ListComp)) \
+                        and len(r.args[0].generators) == 1 and not r.args[0].generators[0].ifs:
+                    g = r.args[0].generators[0]
+                    it = g.iter
+                    if isinstance(it, ast.Call) and isinstance(it.func, ast.Attribute) and it.func.attr == 'values' and cf.self_attr(it.func.value) is not None \
+                            and isinstance(g.target, ast.Name) and pf.nsrc(r.args[0].elt) == f'len({g.target.id})':
+                        return cf.self_attr(it.func.value)
+        return None
     if isinstance(e, ast.BoolOp) and isinstance(e.op, ast.And):
         out: Set[str] = set()
         for v in e.values:
-            r = _empty_conjuncts(v)
+            r = _empty_conjuncts(v, cm)
             if r is None:
                 return None
             out |= r
         return out
     if isinstance(e, ast.UnaryOp) and isinstance(e.op, ast.Not):
         o = e.operand
-        if cf.self_attr(o) is not None:
+        if isinstance(o, ast.BoolOp) and isinstance(o.op, ast.Or):
+            out = set()
+            for v in o.values:
+                r = _empty_conjuncts(ast.UnaryOp(op=ast.Not(), operand=v), cm)
+                if r is None:
+                    return None
+                out |= r
+            return out
+        if isinstance(o, ast.UnaryOp) and isinstance(o.op, ast.Not):
+            return None
+        c = counted(o)
+        if c is not None:
+            return {c}
+        o = unwrap(o)
+        if cf.self_attr(o) is not None and (cm is None or cf.self_attr(o) not in cm.getters):
             return {cf.self_attr(o)}  # type: ignore[arg-type]
-        if isinstance(o, ast.BoolOp) and isinstance(o.op, ast.Or) and all(cf.self_attr(v) is not None for v in o.values):
-            return {cf.self_attr(v) for v in o.values}  # type: ignore[misc]
         return None
-    if isinstance(e, ast.Compare) and len(e.ops) == 1 and isinstance(e.ops[0], ast.Eq) and isinstance(e.comparators[0], ast.Constant) and e.comparators[0].value == 0 \
-            and isinstance(e.left, ast.Call) and pf.dotted(e.left.func) == 'len' and len(e.left.args) == 1 and cf.self_attr(e.left.args[0]) is not None:
-        return {cf.self_attr(e.left.args[0])}  # type: ignore[arg-type]
+    if isinstance(e, ast.Compare) and len(e.ops) == 1 and isinstance(e.comparators[0], ast.Constant) and type(e.comparators[0].value) is int:
+        k, op = e.comparators[0].value, e.ops[0]
+        if (isinstance(op, ast.Eq) and k == 0) or (isinstance(op, ast.LtE) and k == 0) or (isinstance(op, ast.Lt) and k == 1):
+            c = counted(e.left)
+            return {c} if c is not None else None
     return None
 
 
-def _parallel_of(cm: cf.ClassModel, slot: str, pending: Set[str]) -> bool:
-    """True when `slot` is only ever sliced inside a branch together with another pending list (a parallel list such as the optional sample
-    names): its emptiness follows from the other list's."""
-    for f in cm.methods.values():
+def _as_condition(fn: pf.FuncDef) -> Optional[ast.AST]:
+    """The boolean a getter returns, as one expression: `return E`, or guard clauses `if T: return True/False` in front of it
+    (`if T: return False; return E` is `not T and E`, `if T: return True; return E` is `T or E`); single-definition locals are expanded."""
+    body = cf._strip_doc(fn.body)
+    body = [st for st in body if not (isinstance(st, ast.Assign) and len(st.targets) == 1 and isinstance(st.targets[0], ast.Name))]
+    if not body or not isinstance(body[-1], ast.Return) or body[-1].value is None:
+        return None
+    e: ast.AST = pf.expand_locals(fn, body[-1].value, depth=4)
+    for st in reversed(body[:-1]):
+        if not (isinstance(st, ast.If) and not st.orelse and len(st.body) == 1 and isinstance(st.body[0], ast.Return) and isinstance(st.body[0].value, ast.Constant)
+                and isinstance(st.body[0].value.value, bool)):
+            return None
+        t = pf.expand_locals(fn, st.test, depth=4)
+        if st.body[0].value.value:
+            e = ast.BoolOp(op=ast.Or(), values=[t, e])
+        else:
+            e = ast.BoolOp(op=ast.And(), values=[ast.UnaryOp(op=ast.Not(), operand=t), e])
+    # locals that were expanded must have a single definition each (expand_locals leaves the others in place)
+    if any(isinstance(n, ast.Name) and isinstance(n.ctx, ast.Load) and n.id in pf.assignments(fn) and n.id != (fn.args.args[0].arg if fn.args.args else '') for n in ast.walk(e)):
+        return None
+    return ast.fix_missing_locations(e)
+
+
+def _top_level_pending(cm: cf.ClassModel, roots: List[str]) -> Tuple[Set[str], Set[str]]:
+    """(slots a step function slices unconditionally - a top-level statement `x = self.S[..][a:b]` of its body -, slots sliced anywhere in it)."""
+    top: Set[str] = set()
+    anyw: Set[str] = set()
+    for rn in roots:
+        f = cm.methods[rn]
         for st in pf.walk_shallow(f):
-            if isinstance(st, ast.If):
-                inner = {_self_attr_root(x.value.value) for b in st.body for x in ast.walk(b)
-                         if isinstance(x, ast.Assign) and isinstance(x.value, ast.Subscript) and isinstance(x.value.slice, ast.Slice)}
-                if slot in inner:
-                    outer = {_self_attr_root(x.value.value) for x in pf.walk_shallow(f) if isinstance(x, ast.Assign) and isinstance(x.value, ast.Subscript)
-                             and isinstance(x.value.slice, ast.Slice)} - inner
-                    if outer & pending:
-                        return True
-    return False
+            if isinstance(st, ast.Assign) and isinstance(st.value, ast.Subscript) and isinstance(st.value.slice, ast.Slice):
+                sl = _self_attr_root(st.value.value)
+                if sl is not None:
+                    anyw.add(sl)
+                    if any(st is x for x in f.body):
+                        top.add(sl)
+    return top, anyw
 
 
 def _is_self_call(n: pf.Node, name: str) -> bool:
     return any(pf.dotted(c.func) == f'self.{name}' for c in pf.node_calls(n))
 
 
+def _firm(g: pf.CFG, p: Optional[List[pf.Node]], fn: pf.FuncDef, goal, avoid, cons: str, edge_ok=None) -> Optional[List[pf.Node]]:
+    """A witness path is evidence only when it does not hinge on the outcome of a test over local variables (a flag, a counter): for every such
+    test on the path the other outcome must lead to the goal as well.  Otherwise the question is not decided (AnalysisError)."""
+    if p is None:
+        return None
+    defs = pf.assignments(fn)
+    recv = fn.args.args[0].arg if fn.args.args else None
+
+    def carries_finished(name: str, seen: Tuple[str, ...] = ()) -> bool:
+        """The local may hold the value of `self.finished` (or of something computed from it by a method of the object)."""
+        for d in defs.get(name, []):
+            if isinstance(d, ast.arg):
+                continue
+            for x in ast.walk(d):
+                if isinstance(x, ast.Attribute) and x.attr in _FINISHED_LIKE:
+                    return True
+                if isinstance(x, ast.Name) and x.id in defs and x.id != name and x.id not in seen and carries_finished(x.id, seen + (name,)):
+                    return True
+        return False
+    for n in p[:-1]:
+        if n.kind != 'test' or n.ast is None:
+            continue
+        loc = sorted({x.id for x in ast.walk(n.ast) if isinstance(x, ast.Name) and isinstance(x.ctx, ast.Load) and x.id in defs and x.id != recv})
+        if not loc:
+            continue
+        fl = [x for x in loc if carries_finished(x)]
+        if fl:
+            raise AnalysisError(f'{cons}: the path found passes `{n.text()[:60]}`, a test of the local(s) {fl} that may hold `finished`; not decided')
+        # data-dependent tests (`len(batch) == 1`, `remaining > 0`) can go either way independently; a FLAG (a local that is set to a literal
+        # somewhere: `first = True`, `ok = False`, `n_tries = 0`) correlates branches, so a path through a test of it is checked for the other outcome
+        loc = [x for x in loc if any(isinstance(d, ast.Constant) for d in defs.get(x, []))]
+        if not loc:
+            continue
+        for mnode, lab in n.succ:
+            if lab == 'exc' or (edge_ok is not None and not edge_ok(n, mnode, lab)):
+                continue
+            if goal(mnode):
+                continue
+            if avoid(mnode) or g.path_avoiding(mnode, goal, avoid, edge_ok=edge_ok) is None:
+                raise AnalysisError(f'{cons}: the only paths found depend on the outcome of `{n.text()[:60]}` (local(s) {loc}); whether they are feasible is not decided')
+    return p
+
+
+# attribute names through which the state "plan exhausted" is read: the `finished` property and, filled in by run(), every getter / method whose body reads it
+_FINISHED_LIKE: Set[str] = {'finished'}
+
+
+def _note_finished_like(cm: cf.ClassModel) -> None:
+    grew = True
+    while grew:
+        grew = False
+        for nm, f in list(cm.getters.items()) + list(cm.methods.items()):
+            if nm not in _FINISHED_LIKE and any(isinstance(x, ast.Attribute) and x.attr in _FINISHED_LIKE for x in ast.walk(f)) and nm not in STEP_ROOTS + ['run']:
+                _FINISHED_LIKE.add(nm)
+                grew = True
+
+
+_inlx_cache: Dict[Tuple[str, str, Tuple[str, ...]], tuple] = {}
+
+
+_PURE_CALLEES = {'len', 'min', 'max', 'sum', 'sorted', 'list', 'tuple', 'set', 'dict', 'str', 'repr', 'int', 'bool', 'float', 'enumerate', 'zip', 'range', 'reversed', 'isinstance',
+                 'info', 'warning', 'print', 'floor', 'log', 'ceil', 'math.floor', 'math.log', 'math.ceil', 'any', 'all', 'iter', 'next', 'id', 'type', 'hash', 'abs', 'round', 'format'}
+
+
+def _plan_opaque(nodes, fn: pf.FuncDef, plan: Set[str]) -> Optional[str]:
+    """A reason why what the given CFG nodes do to the plan is not fully visible: a mutating method called on a local that aliases object state
+    (`b = self._vdses[k]; b.append(x)`), or the object / a plan slot handed to a function that is not known to leave it alone."""
+    defs = pf.assignments(fn)
+    recv = fn.args.args[0].arg if fn.args.args else 'self'
+
+    def aliases_state(name: str, seen: Tuple[str, ...] = ()) -> bool:
+        for d in defs.get(name, []):
+            if isinstance(d, ast.arg):
+                continue
+            for x in ast.walk(d):
+                if isinstance(x, ast.Name) and x.id == recv:
+                    return True
+                if isinstance(x, ast.Name) and x.id in defs and x.id != name and x.id not in seen and aliases_state(x.id, seen + (name,)):
+                    return True
+        return False
+    for n in nodes:
+        for c in pf.node_calls(n):
+            f = c.func
+            if isinstance(f, ast.Attribute) and f.attr in MUTATORS:
+                base: ast.AST = f.value
+                while isinstance(base, ast.Subscript):
+                    base = base.value
+                if isinstance(base, ast.Name) and base.id != recv and aliases_state(base.id):
+                    return f'`{pf.nsrc(c)[:50]}` changes an object reached through the local `{base.id}`'
+            d = pf.dotted(f) or ''
+            if d in _PURE_CALLEES or d.startswith(('hl.', 'os.path.', 'json.')) or (isinstance(f, ast.Attribute) and cf.self_attr(f, recv) is not None):
+                continue
+            for a in list(c.args) + [k.value for k in c.keywords]:
+                if (isinstance(a, ast.Name) and a.id == recv) or (cf.self_attr(a, recv) in plan):
+                    return f'`{pf.nsrc(c)[:50]}` is handed `{pf.nsrc(a)}`'
+    return None
+
+
+def _inl_excluding(m: pf.Module, target: str, exclude: Tuple[str, ...]):
+    k = (m.path, target, exclude)
+    if k not in _inlx_cache:
+        _inlx_cache[k] = cf.inline_with_setters(m, CLS, target, exclude=exclude)
+    return _inlx_cache[k]
+
+
+def _opaque_callables(fn: pf.FuncDef) -> List[str]:
+    """Calls in fn whose callee is a local variable or a computed expression (a bound method held in a local, getattr(...)(), a table lookup)."""
+    defs = pf.assignments(fn)
+    out = []
+    for c in pf.calls_in(fn):
+        f = c.func
+        if isinstance(f, ast.Name) and f.id in defs:
+            out.append(pf.nsrc(c)[:40])
+        elif not isinstance(f, (ast.Name, ast.Attribute)):
+            out.append(pf.nsrc(c)[:40])
+        elif isinstance(f, ast.Attribute) and isinstance(f.value, ast.Call) and pf.dotted(f.value.func) == 'getattr':
+            out.append(pf.nsrc(c)[:40])
+    return out
+
+
 def check_run(ctx: Ctx, m: pf.Module, cls: ast.ClassDef) -> None:
     methods = _methods(cls)
-    for need in ('run', 'save', 'load'):
+    for need in ('run', 'save', 'load', 'step'):
         ctx.need(need in methods, f'anchor vanished: {CLS}.{need}')
-    run = methods['run']
-    g = pf.cfg(run)
+    # run with its helpers inlined (a helper that saves and steps is part of the loop), `save` and `step` kept as calls
+    _mr, run, il_r = _inl_excluding(m, 'run', ('step', 'save'))
+    g = pf.CFG(run)
     steps = g.find(lambda n: _is_self_call(n, 'step'))
     ctx.need(steps, f'{CLS}.run does not call self.step()')
+    ctx.need(not _opaque_callables(run), f'{F}::{CLS}.run: call(s) through a local {_opaque_callables(run)[:2]} are not resolved')
     is_save = lambda n: _is_self_call(n, 'save')  # noqa: E731
     is_step = lambda n: _is_self_call(n, 'step')  # noqa: E731
     for s in steps:
         cons = f'{F}::{CLS}.run::self.step()'
-        p = g.path_avoiding(g.entry, lambda n: n is s, is_save)
+        at_s = lambda n, s=s: n is s  # noqa: E731
+        p = _firm(g, g.path_avoiding(g.entry, at_s, is_save), run, at_s, is_save, cons)
         p2 = None
         for s0 in steps:
-            q = g.path_avoiding(s0, lambda n: n is s, is_save)
+            q = _firm(g, g.path_avoiding(s0, at_s, is_save), run, at_s, is_save, cons)
             if q is not None:
                 p2 = q
         if p is not None:
@@ -566,52 +889,62 @@ def check_run(ctx: Ctx, m: pf.Module, cls: ast.ClassDef) -> None:
     # after the last step a save happens before normal exit
     cons = f'{F}::{CLS}.run::final save'
     bad = None
+    no_exc = lambda a, b, lab: lab != 'exc'  # noqa: E731
+    at_exit = lambda n: n is g.exit  # noqa: E731
     for s in steps:
-        p = g.path_avoiding(s, lambda n: n is g.exit, is_save, edge_ok=lambda a, b, lab: lab != 'exc')
+        p = _firm(g, g.path_avoiding(s, at_exit, is_save, edge_ok=no_exc), run, at_exit, is_save, cons, edge_ok=no_exc)
         if p is not None:
             bad = p
     ctx.check(bad is None, 'R3', cons, 'run can return after a step without saving: the saved plan still lists inputs that were already merged, a later resume merges them twice',
               m.path, run.lineno, extra=[repr(x) for x in bad] if bad else None)
     # run() returns normally only after it has seen `finished` true (the loop is a loop), and step() always runs a step function unless finished
-    p = g.path_avoiding(g.entry, lambda n: n is g.exit, lambda n: False,
-                        edge_ok=lambda a, b, lab: lab != 'exc' and not (a.kind == 'test' and _implies_finished(a.ast, lab)))
-    ctx.check(p is None, 'R3', f'{F}::{CLS}.run::returns only when finished', 'run() can return normally without `self.finished` having been true '
+    fin_edge = lambda a, b, lab: lab != 'exc' and not (a.kind == 'test' and _implies_finished(a.ast, lab))  # noqa: E731
+    never = lambda n: False  # noqa: E731
+    cons = f'{F}::{CLS}.run::returns only when finished'
+    p = _firm(g, g.path_avoiding(g.entry, at_exit, never, edge_ok=fin_edge), run, at_exit, never, cons, edge_ok=fin_edge)
+    ctx.check(p is None, 'R3', cons, 'run() can return normally without `self.finished` having been true '
               f'(path {[repr(x) for x in (p or [])][-5:]}): pending inputs stay in the plan and the output dataset is never written', m.path, run.lineno)
     cmx = cf.ClassModel(m, CLS)
     stepf = cmx.methods.get('step')
     ctx.need(stepf is not None, f'anchor vanished: {CLS}.step')
     roots = _step_roots(cmx)
+    ctx.need(roots, f'{F}::{CLS}.step: no call of a step function (a method that changes the plan) found')
+    ctx.need(not _opaque_callables(stepf), f'{F}::{CLS}.step: call(s) through a local {_opaque_callables(stepf)[:2]} are not resolved')
     gs = pf.cfg(stepf)
     is_root = lambda n: any(cf.self_attr(c.func) in roots for c in pf.node_calls(n) if isinstance(c.func, ast.Attribute))  # noqa: E731
-    p = gs.path_avoiding(gs.entry, lambda n: n is gs.exit, is_root,
-                         edge_ok=lambda a, b, lab: lab != 'exc' and not (a.kind == 'test' and _implies_finished(a.ast, lab)))
-    ctx.check(p is None, 'R3', f'{F}::{CLS}.step::always steps', f'step() can return without running one of {roots} although the plan is not exhausted '
+    at_exit_s = lambda n: n is gs.exit  # noqa: E731
+    cons = f'{F}::{CLS}.step::always steps'
+    p = _firm(gs, gs.path_avoiding(gs.entry, at_exit_s, is_root, edge_ok=fin_edge), stepf, at_exit_s, is_root, cons, edge_ok=fin_edge)
+    ctx.check(p is None, 'R3', cons, f'step() can return without running one of {roots} although the plan is not exhausted '
               f'(path {[repr(x) for x in (p or [])][-5:]}): run() then saves and steps forever on an unchanged plan', m.path, stepf.lineno)
     # `finished` means: no pending input in any list the steps consume
     fin = cmx.getters.get('finished')
     ctx.need(fin is not None, f'anchor vanished: {CLS}.finished')
-    body = cf._strip_doc(fin.body)
-    ctx.need(len(body) == 1 and isinstance(body[0], ast.Return) and body[0].value is not None, f'{F}::{CLS}.finished: unrecognised shape')
-    empties = _empty_conjuncts(body[0].value)
-    ctx.need(empties is not None, f'{F}::{CLS}.finished: unrecognised condition `{pf.nsrc(body[0].value)}`')
-    pending: Set[str] = set()
-    for rn in roots:
-        for st in pf.walk_shallow(cmx.methods[rn]):
-            if isinstance(st, ast.Assign) and isinstance(st.value, ast.Subscript) and isinstance(st.value.slice, ast.Slice):
-                sl = _self_attr_root(st.value.value)
-                if sl is not None:
-                    pending.add(sl)
-    ctx.need(pending, f'{F}::{CLS}: no pending list found in {roots}')
-    extra_checked = empties - pending
-    main = pending - {x for x in pending if _parallel_of(cmx, x, pending)}
-    ctx.check(main <= empties, 'R3', f'{F}::{CLS}.finished::covers every pending list',
-              f'`finished` is `{pf.nsrc(body[0].value)}` but the steps consume {sorted(main)}: with entries left in {sorted(main - empties)} the combiner reports '
+    cond = _as_condition(fin)
+    ctx.need(cond is not None, f'{F}::{CLS}.finished: unrecognised shape')
+    empties = _empty_conjuncts(cond, cmx)
+    ctx.need(empties is not None, f'{F}::{CLS}.finished: unrecognised condition `{pf.nsrc(cond)}`')
+    top, anyw = _top_level_pending(cmx, roots)
+    ctx.need(top, f'{F}::{CLS}: no pending list found in {roots}')
+    extra_checked = empties - anyw
+    # only the lists a step function slices unconditionally are claimed: a list sliced under a condition (the optional sample names, consumed in
+    # lockstep with the GVCFs) need not be tested by `finished`
+    ctx.check(top <= empties, 'R3', f'{F}::{CLS}.finished::covers every pending list',
+              f'`finished` is `{pf.nsrc(cond)}` but the steps consume {sorted(top)}: with entries left in {sorted(top - empties)} the combiner reports '
               f'finished, run() stops and those inputs never reach the output' + (f' (also tests {sorted(extra_checked)})' if extra_checked else ''), m.path, fin.lineno)
     # save -> json.dump(self, ..., cls=Encoder); Encoder.default -> o.to_dict()
     save = methods['save']
-    dumps = [c for c in pf.calls_in(save) if pf.dotted(c.func) == 'json.dump']
-    ok = bool(dumps) and all(c.args and pf.nsrc(c.args[0]) == 'self' and any(k.arg == 'cls' and pf.nsrc(k.value) == 'Encoder' for k in c.keywords) for c in dumps)
-    ctx.check(ok, 'R3', f'{F}::{CLS}.save::json.dump', 'save must dump `self` with cls=Encoder', m.path, save.lineno)
+    dumps = [c for c in pf.calls_in(save) if pf.dotted(c.func) == 'json.dump' and c.args and pf.nsrc(c.args[0]) == 'self']
+    ctx.need(dumps, f'{F}::{CLS}.save: no `json.dump(self, <stream>, ...)` found')
+
+    def cls_kw(c: ast.Call) -> Optional[str]:
+        ks = [k for k in c.keywords if k.arg == 'cls']
+        ctx.need(not any(k.arg is None for k in c.keywords), f'{F}::{CLS}.save: **kwargs in `{pf.nsrc(c)[:50]}`')
+        return pf.nsrc(pf.resolve_expr(save, ks[0].value)) if ks else None
+    enc_of = [cls_kw(c) for c in dumps]
+    ctx.need(all(e in (None, 'Encoder') for e in enc_of), f'{F}::{CLS}.save: json.dump with an encoder other than Encoder ({enc_of}) is not analysed')
+    ctx.check(all(e == 'Encoder' for e in enc_of), 'R3', f'{F}::{CLS}.save::json.dump', 'save dumps `self` without cls=Encoder: the default JSON encoder cannot '
+              f'serialise a {CLS} (TypeError), no plan is ever written', m.path, save.lineno)
     # ... into a stream opened for writing on the save path
     slot_of_param, _pos, _ws, _un = _init_param_map(m, methods['__init__'])
     ctx.need('save_path' in slot_of_param, f'{F}::{CLS}.__init__: save_path parameter not found')
@@ -620,43 +953,108 @@ def check_run(ctx: Ctx, m: pf.Module, cls: ast.ClassDef) -> None:
     for w in [n for n in pf.walk_shallow(save) if isinstance(n, (ast.With, ast.AsyncWith))]:
         for it in w.items:
             if isinstance(it.optional_vars, ast.Name) and isinstance(it.context_expr, ast.Call) and isinstance(it.context_expr.func, ast.Attribute) \
-                    and it.context_expr.func.attr == 'open' and it.context_expr.args:
+                    and it.context_expr.func.attr == 'open':
                 used = any(len(c.args) >= 2 and isinstance(c.args[1], ast.Name) and c.args[1].id == it.optional_vars.id for c in dumps if any(c is x for x in ast.walk(w)))
+                used = used or any(isinstance(k.value, ast.Name) and k.value.id == it.optional_vars.id and k.arg == 'fp' for c in dumps if any(c is x for x in ast.walk(w))
+                                   for k in c.keywords)
                 if used:
-                    mode = it.context_expr.args[1].value if len(it.context_expr.args) > 1 and isinstance(it.context_expr.args[1], ast.Constant) else None
-                    targets.append((symc.ev(it.context_expr.args[0], save), mode, w))
+                    oc = it.context_expr
+                    ctx.need(not any(isinstance(a, ast.Starred) for a in oc.args) and not any(k.arg is None for k in oc.keywords), f'{F}::{CLS}.save: star arguments in `{pf.nsrc(oc)[:50]}`')
+                    path_e = oc.args[0] if oc.args else next((k.value for k in oc.keywords if k.arg in ('path', 'file', 'name', 'url')), None)
+                    mode_e = oc.args[1] if len(oc.args) > 1 else next((k.value for k in oc.keywords if k.arg == 'mode'), None)
+                    ctx.need(path_e is not None, f'{F}::{CLS}.save: path argument of `{pf.nsrc(oc)[:50]}` not found')
+                    if mode_e is None:
+                        mode: Optional[str] = 'r'  # the default of every open()
+                    else:
+                        mode_e = pf.resolve_expr(save, mode_e)
+                        mode = mode_e.value if isinstance(mode_e, ast.Constant) and isinstance(mode_e.value, str) else None
+                    targets.append((symc.ev(path_e, save), mode, w))
     ctx.need(targets, f'{F}::{CLS}.save: no `with <fs>.open(path, mode) as out: json.dump(self, out, ...)` found')
-    okp = any(v == ('slot', slot_of_param['save_path']) and mode in ('w', 'wt') for v, mode, _w in targets)
+    save_slot = slot_of_param['save_path']
+    okp = any(v == ('slot', save_slot) and mode in ('w', 'wt', 'w+', 'tw') for v, mode, _w in targets)
+    if not okp:
+        # evidence: every stream the plan is dumped into is fully resolved and none is the save path opened for writing
+        for v, mode, _w in targets:
+            ctx.need(mode is not None, f'{F}::{CLS}.save: computed open mode')
+            ctx.need(not any(x[0] in ('unknown', 'param') for x in cf.leaves(v)), f'{F}::{CLS}.save: cannot resolve the path `{cf.render(v)}` the plan is written to')
     ctx.check(okp, 'R3', f'{F}::{CLS}.save::writes the save path', f'save() dumps the plan to {[(cf.render(v), mode) for v, mode, _w in targets]} instead of writing '
-              f'self.{slot_of_param["save_path"]}: load_combiner / new_combiner read the plan from the save path, so a resumed run starts from a stale or missing plan',
+              f'self.{save_slot}: load_combiner / new_combiner read the plan from the save path, so a resumed run starts from a stale or missing plan',
               m.path, targets[0][2].lineno)
     enc = _methods(m.cls('Encoder')).get('default')
     ctx.need(enc is not None, 'anchor vanished: Encoder.default')
-    ok = False
+    ctx.need(len(enc.args.args) == 2, f'{F}::Encoder.default: unexpected signature')
+    ovar = enc.args.args[1].arg
+    # the branch taken for a combiner: the first `if isinstance(o, <types incl. the class>)` must return o.to_dict() (possibly through a local)
+    verdict: Optional[bool] = None
     for st in enc.body:
-        if isinstance(st, ast.If) and pf.nsrc(st.test) == f'isinstance(o, {CLS})' and len(st.body) == 1 and isinstance(st.body[0], ast.Return) \
-                and pf.nsrc(st.body[0].value) == 'o.to_dict()':
-            ok = True
-            break
-        if isinstance(st, ast.If):
+        if isinstance(st, ast.Expr) and isinstance(st.value, ast.Constant):
             continue
-    ctx.check(ok, 'R3', f'{F}::Encoder.default', f'Encoder.default must serialise a {CLS} through o.to_dict()', m.path, enc.lineno)
+        if not (isinstance(st, ast.If) and isinstance(st.test, ast.Call) and pf.dotted(st.test.func) == 'isinstance' and len(st.test.args) == 2
+                and pf.nsrc(st.test.args[0]) == ovar and not st.orelse):
+            break  # a statement in front of the combiner branch that is not a type dispatch: not analysed
+        ty = st.test.args[1]
+        names = [pf.nsrc(x) for x in (ty.elts if isinstance(ty, ast.Tuple) else [ty])]
+        if CLS not in names:
+            ctx.need(all(n in ('HailType', 'tmatrix', 'hl.tmatrix', 'str', 'int', 'float', 'bool', 'set', 'frozenset', 'tuple') or n.startswith('hl.') for n in names),
+                     f'{F}::Encoder.default: cannot tell whether a {CLS} is an instance of `{pf.nsrc(ty)[:40]}`')
+            continue
+        rets = [x for x in pf.walk_shallow(ast.Module(body=st.body, type_ignores=[])) if isinstance(x, ast.Return)]
+        if len(rets) == 1 and rets[0] is st.body[-1] and rets[0].value is not None:
+            val = pf.expand_locals(enc, rets[0].value)
+            if pf.nsrc(val) == f'{ovar}.to_dict()':
+                verdict = True
+            else:
+                # another serialisation is evidence when it cannot delegate to to_dict: no method of the object is called and the object is not
+                # handed whole to anything but a reading builtin
+                delegates = False
+                for c in [x for x in ast.walk(val) if isinstance(x, ast.Call)]:
+                    if isinstance(c.func, ast.Attribute) and pf.nsrc(c.func.value) == ovar:
+                        delegates = True
+                    elif (pf.dotted(c.func) or '') not in ('getattr', 'vars', 'str', 'repr', 'dict', 'list', 'tuple', 'sorted', 'type') \
+                            and any(isinstance(a, ast.Name) and a.id == ovar for a in list(c.args) + [k.value for k in c.keywords]):
+                        delegates = True
+                if not delegates:
+                    verdict = False
+        break
+    ctx.need(verdict is not None, f'{F}::Encoder.default: how a {CLS} is serialised is not recognised')
+    ctx.check(verdict, 'R3', f'{F}::Encoder.default', f'Encoder.default does not serialise a {CLS} through o.to_dict()', m.path, enc.lineno)
     load = methods['load']
-    loads = [c for c in pf.calls_in(load) if pf.dotted(c.func) == 'json.load']
-    ok = len(loads) == 1 and any(k.arg == 'cls' and pf.nsrc(k.value) == 'Decoder' for k in loads[0].keywords)
+    loads = [c for c in pf.calls_in(load) if pf.dotted(c.func) in ('json.load', 'json.loads')]
+    ctx.need(len(loads) == 1 and not any(k.arg is None for k in loads[0].keywords), f'{F}::{CLS}.load: expected one json.load(<stream>, cls=Decoder)')
+    dec_kw = [pf.nsrc(pf.resolve_expr(load, k.value)) for k in loads[0].keywords if k.arg == 'cls']
+    hook_kw = [pf.nsrc(pf.resolve_expr(load, k.value)) for k in loads[0].keywords if k.arg == 'object_hook']
+    ctx.need(not dec_kw or dec_kw == ['Decoder'], f'{F}::{CLS}.load: decoder class `{dec_kw}` is not analysed')
+    ctx.need(not hook_kw or hook_kw == ['Decoder._object_hook'], f'{F}::{CLS}.load: object hook `{hook_kw}` is not analysed')
     dinit = _methods(m.cls('Decoder')).get('__init__')
-    ok2 = dinit is not None and any(any(k.arg == 'object_hook' and pf.nsrc(k.value) == 'Decoder._object_hook' for k in c.keywords) for c in pf.calls_in(dinit))
-    ctx.check(ok and ok2, 'R3', f'{F}::{CLS}.load::json.load', 'load must read the plan with cls=Decoder and Decoder must install _object_hook', m.path, load.lineno)
+    installs: Optional[bool] = None
+    if hook_kw:
+        installs = True
+    elif dec_kw:
+        ctx.need(dinit is not None, f'{F}::Decoder: no __init__; where the object hook is installed is not recognised')
+        sup = [c for c in pf.calls_in(dinit) if isinstance(c.func, ast.Attribute) and c.func.attr == '__init__']
+        ctx.need(len(sup) == 1, f'{F}::Decoder.__init__: expected one call of the base constructor')
+        hk = [pf.nsrc(pf.resolve_expr(dinit, k.value)) for k in sup[0].keywords if k.arg == 'object_hook']
+        ctx.need(not hk or hk[0] in ('Decoder._object_hook', 'self._object_hook', 'type(self)._object_hook', 'self.__class__._object_hook'),
+                 f'{F}::Decoder.__init__: object hook `{hk}` is not analysed')
+        # without the keyword the hook is installed only if the caller passes it (json.load forwards its keywords): load() does not
+        installs = bool(hk)
+    else:
+        installs = False
+    ctx.check(installs, 'R3', f'{F}::{CLS}.load::json.load', 'load reads the plan without Decoder._object_hook (no cls=Decoder / the decoder does not install the hook): '
+              f'the result is a plain dict, not a {CLS}', m.path, load.lineno)
 
 
 # ---------------------------------------------------------------------------------------------------------------------------
 # partitioning: tiny exact interpreter for the extracted statements
 # ---------------------------------------------------------------------------------------------------------------------------
 class _Interp:
-    def __init__(self, where: str, emit_name: str, list_name: str):
+    """Exact-integer interpretation of the extracted statements.  `emits` maps the `<list>.append(<interval>)` calls of the body to the
+    (start position, end position) expressions of the interval they append (resolved through the interval-building helper)."""
+
+    def __init__(self, where: str, emits: Dict[int, Tuple[ast.AST, ast.AST]], length_key: str):
         self.where = where
-        self.emit_name = emit_name
-        self.list_name = list_name
+        self.emits = emits
+        self.length_key = length_key
         self.out: List[Tuple[int, int]] = []
         self.steps = 0
 
@@ -667,6 +1065,8 @@ class _Interp:
             if e.id not in env:
                 raise AnalysisError(f'{self.where}: unbound name {e.id}')
             return env[e.id]
+        if _is_length_lookup(e):
+            return env[self.length_key]
         if isinstance(e, ast.BinOp):
             a, b = self.ev(e.left, env), self.ev(e.right, env)
             if isinstance(e.op, ast.Add):
@@ -680,8 +1080,14 @@ class _Interp:
             if isinstance(e.op, ast.Div):
                 return Fraction(a) / Fraction(b)
             raise AnalysisError(f'{self.where}: unsupported operator in `{pf.nsrc(e)}`')
+        if isinstance(e, ast.UnaryOp) and isinstance(e.op, ast.USub):
+            return -self.ev(e.operand, env)
+        if isinstance(e, ast.IfExp):
+            return self.ev(e.body if self.test(e.test, env) else e.orelse, env)
         if isinstance(e, ast.Call):
             d = pf.dotted(e.func)
+            if e.keywords:
+                raise AnalysisError(f'{self.where}: unsupported call `{pf.nsrc(e)}`')
             args = [self.ev(a, env) for a in e.args]
             if d in ('math.ceil', 'ceil') and len(args) == 1:
                 x = Fraction(args[0])
@@ -697,6 +1103,13 @@ class _Interp:
         raise AnalysisError(f'{self.where}: unsupported expression `{pf.nsrc(e)}`')
 
     def test(self, e: ast.AST, env) -> bool:
+        if isinstance(e, ast.Constant) and isinstance(e.value, bool):
+            return e.value
+        if isinstance(e, ast.UnaryOp) and isinstance(e.op, ast.Not):
+            return not self.test(e.operand, env)
+        if isinstance(e, ast.BoolOp):
+            vals = [self.test(v, env) for v in e.values]
+            return all(vals) if isinstance(e.op, ast.And) else any(vals)
         if isinstance(e, ast.Compare) and len(e.ops) == 1:
             a, b = self.ev(e.left, env), self.ev(e.comparators[0], env)
             op = e.ops[0]
@@ -704,6 +1117,10 @@ class _Interp:
                 if isinstance(op, t):
                     return f
         raise AnalysisError(f'{self.where}: unsupported test `{pf.nsrc(e)}`')
+
+    class _Flow(Exception):
+        def __init__(self, kind: str):
+            self.kind = kind
 
     def run(self, stmts, env) -> None:
         for st in stmts:
@@ -714,85 +1131,186 @@ class _Interp:
                 if isinstance(st.value, ast.List) and not st.value.elts:
                     continue  # intervals = []
                 env[st.targets[0].id] = self.ev(st.value, env)
+            elif isinstance(st, ast.AnnAssign) and isinstance(st.target, ast.Name) and st.value is not None:
+                if isinstance(st.value, ast.List) and not st.value.elts:
+                    continue
+                env[st.target.id] = self.ev(st.value, env)
             elif isinstance(st, ast.AugAssign) and isinstance(st.target, ast.Name) and isinstance(st.op, (ast.Add, ast.Sub)):
                 v = self.ev(st.value, env)
                 env[st.target.id] = env[st.target.id] + v if isinstance(st.op, ast.Add) else env[st.target.id] - v  # type: ignore[operator]
             elif isinstance(st, ast.While):
-                while self.test(st.test, env):
-                    self.run(st.body, env)
+                try:
+                    while self.test(st.test, env):
+                        try:
+                            self.run(st.body, env)
+                        except _Interp._Flow as f:
+                            if f.kind == 'break':
+                                raise
+                    self.run(st.orelse, env)
+                except _Interp._Flow as f:
+                    if f.kind != 'break':
+                        raise
             elif isinstance(st, ast.If):
                 self.run(st.body if self.test(st.test, env) else st.orelse, env)
-            elif (isinstance(st, ast.Expr) and isinstance(st.value, ast.Call) and pf.dotted(st.value.func) == f'{self.list_name}.append'
-                  and len(st.value.args) == 1 and isinstance(st.value.args[0], ast.Call) and pf.dotted(st.value.args[0].func) == self.emit_name
-                  and len(st.value.args[0].args) == 2):
-                a, b = (self.ev(x, env) for x in st.value.args[0].args)
+            elif isinstance(st, ast.Expr) and isinstance(st.value, ast.Call) and id(st.value) in self.emits:
+                a, b = (self.ev(x, env) for x in self.emits[id(st.value)])
                 self.out.append((a, b))  # type: ignore[arg-type]
+            elif isinstance(st, ast.Expr) and isinstance(st.value, ast.Constant):
+                continue
+            elif isinstance(st, ast.Pass):
+                continue
+            elif isinstance(st, ast.Break):
+                raise _Interp._Flow('break')
+            elif isinstance(st, ast.Continue):
+                raise _Interp._Flow('continue')
             elif isinstance(st, ast.Return):
-                return
+                raise _Interp._Flow('return')
             elif isinstance(st, (ast.FunctionDef,)):
                 continue
             else:
                 raise AnalysisError(f'{self.where}: unsupported statement `{pf.nsrc(st)[:80]}`')
 
 
+_LENGTH_ALIASES: Set[str] = set()
+
+
+def _is_length_lookup(e: ast.AST) -> bool:
+    """`<reference genome>.lengths[<contig>]`: the contig length (ReferenceGenome.lengths is the contig -> length dict); also through a local
+    that holds the dict (`lengths = reference_genome.lengths`, registered in _LENGTH_ALIASES by _partition_model)."""
+    if not (isinstance(e, ast.Subscript) and not isinstance(e.slice, ast.Slice)):
+        return False
+    return (isinstance(e.value, ast.Attribute) and e.value.attr == 'lengths') or (isinstance(e.value, ast.Name) and e.value.id in _LENGTH_ALIASES)
+
+
+def _ctor_args(call: ast.Call, names: List[str], where: str) -> Dict[str, ast.AST]:
+    """Arguments of a constructor call by parameter name (positional arguments matched against `names`)."""
+    if any(isinstance(a, ast.Starred) for a in call.args) or any(k.arg is None for k in call.keywords) or len(call.args) > len(names):
+        raise AnalysisError(f'{where}: unrecognised arguments of `{pf.nsrc(call)[:70]}`')
+    out: Dict[str, ast.AST] = dict(zip(names, call.args))
+    for k in call.keywords:
+        if k.arg in out:
+            raise AnalysisError(f'{where}: argument {k.arg} given twice in `{pf.nsrc(call)[:70]}`')
+        out[k.arg] = k.value  # type: ignore[index]
+    return out
+
+
+def _init_names(rel: str, qual: str) -> Tuple[List[str], Dict[str, ast.AST]]:
+    ii = pf.load(rel).func(qual)
+    names = [a.arg for a in ii.args.args][1:]
+    return names, dict(zip(names[len(names) - len(ii.args.defaults):], ii.args.defaults))
+
+
+def _interval_of(e: ast.AST, helpers: Dict[str, pf.FuncDef], where: str, depth: int = 0):
+    """(start position, end position, includes_start, includes_end) of an expression that builds one locus interval: an `hl.Interval(...)` call whose
+    end points are `hl.Locus(...)` calls, possibly behind expression helpers (`def f(a, b): return hl.Interval(...)`), whose parameters are
+    substituted by the arguments of the call.  Raises AnalysisError for anything else."""
+    if not isinstance(e, ast.Call) or depth > 3:
+        raise AnalysisError(f'{where}: `{pf.nsrc(e)[:60]}` is not a recognised interval constructor')
+    if isinstance(e.func, ast.Name) and e.func.id in helpers:
+        h = helpers[e.func.id]
+        body = cf._strip_doc(h.body)
+        if len(body) != 1 or not isinstance(body[0], ast.Return) or body[0].value is None or h.args.vararg or h.args.kwarg or h.decorator_list:
+            raise AnalysisError(f'{where}: helper {h.name} is not a single `return <interval>`')
+        params = [a.arg for a in h.args.posonlyargs + h.args.args + h.args.kwonlyargs]
+        bound = _ctor_args(e, [a.arg for a in h.args.posonlyargs + h.args.args], where)
+        pos = h.args.posonlyargs + h.args.args
+        dfl = dict(zip([a.arg for a in pos][len(pos) - len(h.args.defaults):], h.args.defaults))
+        dfl.update({a.arg: d for a, d in zip(h.args.kwonlyargs, h.args.kw_defaults) if d is not None})
+        for p in params:
+            if p not in bound:
+                if p not in dfl:
+                    raise AnalysisError(f'{where}: parameter {p} of {h.name} is not bound by `{pf.nsrc(e)[:60]}`')
+                bound[p] = dfl[p]
+        if set(bound) - set(params):
+            raise AnalysisError(f'{where}: `{pf.nsrc(e)[:60]}` passes unknown keyword(s) to {h.name}')
+        return _interval_of(_subst(body[0].value, bound), {k: v for k, v in helpers.items() if k != h.name}, where, depth + 1)
+    if pf.dotted(e.func) not in ('hl.Interval', 'Interval', 'hl.utils.Interval', 'hl.utils.interval.Interval', 'hail.Interval', 'hail.utils.Interval'):
+        raise AnalysisError(f'{where}: `{pf.nsrc(e)[:60]}` is not a recognised interval constructor')
+    inames, idfl = _init_names('hail/python/hail/utils/interval.py', 'Interval.__init__')
+    for nm in ('start', 'end', 'includes_start', 'includes_end'):
+        if nm not in inames:
+            raise AnalysisError(f'Interval.__init__: parameter {nm} not found')
+    ia = _ctor_args(e, inames, where)
+    lnames, _ldfl = _init_names('hail/python/hail/genetics/locus.py', 'Locus.__init__')
+    if 'position' not in lnames:
+        raise AnalysisError('Locus.__init__: parameter position not found')
+
+    def pos_of(x: Optional[ast.AST]) -> ast.AST:
+        if not (isinstance(x, ast.Call) and pf.dotted(x.func) in ('hl.Locus', 'Locus', 'hl.genetics.Locus', 'hail.Locus', 'hail.genetics.Locus')):
+            raise AnalysisError(f'{where}: interval end point `{pf.nsrc(x)[:50] if x is not None else None}` is not a Locus(...)')
+        la = _ctor_args(x, lnames, where)
+        if 'position' not in la:
+            raise AnalysisError(f'{where}: `{pf.nsrc(x)[:50]}` has no position')
+        return la['position']
+
+    def flag(name: str) -> bool:
+        v = ia.get(name, idfl.get(name))
+        if not (isinstance(v, ast.Constant) and isinstance(v.value, bool)):
+            raise AnalysisError(f'{where}: {name} is not a literal')
+        return v.value
+    return pos_of(ia.get('start')), pos_of(ia.get('end')), flag('includes_start'), flag('includes_end')
+
+
 def _partition_model(ctx: Ctx, mc: pf.Module):
     fn = mc.func('calculate_even_genome_partitioning')
-    calc = mc.func('calculate_even_genome_partitioning.calc_parts')
     where = f'{FC}::calculate_even_genome_partitioning.calc_parts'
-    size_param = fn.args.args[1].arg
-    # the interval constructor: closedness
-    li = mc.func('calculate_even_genome_partitioning.calc_parts.locus_interval')
-    rets = [n for n in pf.walk_shallow(li) if isinstance(n, ast.Return)]
-    ctx.need(len(rets) == 1 and isinstance(rets[0].value, ast.Call) and pf.dotted(rets[0].value.func) in ('hl.Interval', 'Interval', 'hl.utils.Interval'),
-             f'{where}.locus_interval: unrecognised interval constructor')
-    call = rets[0].value
-    kws = {k.arg: k.value for k in call.keywords}
-    a_start, a_end = [a.arg for a in li.args.args][:2]
-
-    def pos_of(e: Optional[ast.AST]) -> Optional[str]:
-        if isinstance(e, ast.Call):
-            for k in e.keywords:
-                if k.arg == 'position' and isinstance(k.value, ast.Name):
-                    return k.value.id
-        return None
-
-    ctx.need(pos_of(kws.get('start')) == a_start and pos_of(kws.get('end')) == a_end, f'{where}.locus_interval: start/end loci are not built from the two arguments')
-
-    def flag(name: str, default: bool) -> bool:
-        v = kws.get(name)
-        if v is None:
-            return default
-        ctx.need(isinstance(v, ast.Constant) and isinstance(v.value, bool), f'{where}.locus_interval: {name} is not a literal')
-        return v.value
-
-    # defaults of hail.utils.interval.Interval.__init__
-    im = pf.load('hail/python/hail/utils/interval.py')
-    ii = im.func('Interval.__init__')
-    names = [a.arg for a in ii.args.args]
-    dfl = dict(zip(names[len(names) - len(ii.args.defaults):], ii.args.defaults))
-    for nm in ('includes_start', 'includes_end'):
-        ctx.need(nm in dfl and isinstance(dfl[nm], ast.Constant), f'Interval.__init__: default of {nm} not found')
-    inc_start = flag('includes_start', dfl['includes_start'].value)
-    inc_end = flag('includes_end', dfl['includes_end'].value)
-    # the statements to interpret: everything in calc_parts except the nested def and the length lookup
+    pos = fn.args.posonlyargs + fn.args.args
+    ctx.need(len(pos) == 2 and not fn.args.kwonlyargs, f'{FC}::calculate_even_genome_partitioning: expected (reference_genome, interval_size)')
+    size_param = pos[1].arg
+    nested = [f for f in ast.walk(fn) if isinstance(f, ast.FunctionDef) and f is not fn]
+    # the per-contig function is the nested function that holds the loop (whatever it is called)
+    loops = [f for f in nested if any(isinstance(x, (ast.While, ast.For)) for x in pf.walk_shallow(f))]
+    ctx.need(len(loops) == 1, f'{where}: expected one nested function with the interval loop, found {[f.name for f in loops]}')
+    calc = loops[0]
+    helpers = {f.name: f for f in nested if f is not calc}
+    helpers.update({f.name: f for f in mc.tree.body if isinstance(f, ast.FunctionDef) and f is not fn and f.name not in helpers})
+    # the statements to interpret: everything in calc_parts except nested defs and the length lookup
     body = []
-    length_var = None
+    length_var = '<contig length>'
+    _LENGTH_ALIASES.clear()
+    for f in (fn, calc):
+        for nm, ds in pf.assignments(f).items():
+            if len(ds) == 1 and isinstance(ds[0], ast.Attribute) and ds[0].attr == 'lengths':
+                _LENGTH_ALIASES.add(nm)
     for st in calc.body:
         if isinstance(st, (ast.FunctionDef,)):
             continue
-        if isinstance(st, ast.Assign) and isinstance(st.value, ast.Subscript) and 'lengths' in pf.nsrc(st.value):
-            length_var = st.targets[0].id  # type: ignore[attr-defined]
+        if isinstance(st, ast.Assign) and len(st.targets) == 1 and isinstance(st.targets[0], ast.Name) and st.targets[0].id in _LENGTH_ALIASES:
+            continue
+        if isinstance(st, ast.Assign) and len(st.targets) == 1 and isinstance(st.targets[0], ast.Name) and _is_length_lookup(st.value):
+            ctx.need(length_var == '<contig length>', f'{where}: two contig length lookups')
+            length_var = st.targets[0].id
             continue
         body.append(st)
-    ctx.need(length_var is not None, f'{where}: contig length lookup not found')
-    list_names = [st.targets[0].id for st in body if isinstance(st, ast.Assign) and isinstance(st.value, ast.List) and not st.value.elts]  # type: ignore[attr-defined]
+    ctx.need(length_var != '<contig length>' or any(_is_length_lookup(x) for st in body for x in ast.walk(st)), f'{where}: contig length lookup not found')
+    list_names = [st.targets[0].id for st in body if isinstance(st, ast.Assign) and len(st.targets) == 1 and isinstance(st.targets[0], ast.Name)
+                  and isinstance(st.value, ast.List) and not st.value.elts]
+    list_names += [st.target.id for st in body if isinstance(st, ast.AnnAssign) and isinstance(st.target, ast.Name) and isinstance(st.value, ast.List) and not st.value.elts]
     ctx.need(len(list_names) == 1, f'{where}: result list not found')
-    ret = [st for st in body if isinstance(st, ast.Return)]
-    ctx.need(len(ret) == 1 and pf.nsrc(ret[0].value) == list_names[0], f'{where}: does not return the interval list')
+    ret = [st for st in pf.walk_shallow(calc) if isinstance(st, ast.Return)]
+    ctx.need(len(ret) == 1 and ret[0] in body and isinstance(ret[0].value, ast.Name) and ret[0].value.id == list_names[0], f'{where}: does not return the interval list')
+    # every other use of the list is `<list>.append(<interval>)` as a statement
+    emits: Dict[int, Tuple[ast.AST, ast.AST]] = {}
+    flags: Set[Tuple[bool, bool]] = set()
+    appends = [st.value for st in pf.walk_shallow(calc) if isinstance(st, ast.Expr) and isinstance(st.value, ast.Call) and isinstance(st.value.func, ast.Attribute)
+               and st.value.func.attr == 'append' and isinstance(st.value.func.value, ast.Name) and st.value.func.value.id == list_names[0]]
+    uses = [n for n in pf.walk_shallow(calc) if isinstance(n, ast.Name) and n.id == list_names[0] and isinstance(n.ctx, ast.Load)]
+    ctx.need(appends and len(uses) == len(appends) + 1, f'{where}: the interval list is used other than by `.append(<interval>)` statements and the final return')
+    for c in appends:
+        ctx.need(len(c.args) == 1 and not c.keywords, f'{where}: unrecognised `{pf.nsrc(c)[:60]}`')
+        s_e, e_e, inc_s, inc_e = _interval_of(c.args[0], helpers, where)
+        emits[id(c)] = (s_e, e_e)
+        flags.add((inc_s, inc_e))
+    ctx.need(len(flags) == 1, f'{where}: intervals of different closedness are appended')
+    inc_start, inc_end = next(iter(flags))
 
     def simulate(L: int, S: int) -> List[Tuple[int, int]]:
-        it = _Interp(where, 'locus_interval', list_names[0])
-        it.run(body, {length_var: L, size_param: S})
+        it = _Interp(where, emits, length_var)
+        try:
+            it.run(body, {length_var: L, size_param: S})
+        except _Interp._Flow as f:
+            if f.kind != 'return':
+                raise AnalysisError(f'{where}: `{f.kind}` outside a loop')
         return it.out
 
     return simulate, inc_start, inc_end, calc
@@ -839,6 +1357,32 @@ def _judge(parts: List[Tuple[int, int]], L: int, S: int, inc_start: bool, inc_en
     if longest > S:
         lp = ('one base too long' if longest == S + 1 else 'too long', f'an interval spans {longest} bases')
     return cp, lp
+
+
+def _fold_int(e: ast.AST) -> Optional[int]:
+    """Value of an integer literal expression (`1_200_000`, `1200 * 1000`, `60 * 10 ** 6`): constant folding of literals only."""
+    if isinstance(e, ast.Constant) and type(e.value) is int:
+        return e.value
+    if isinstance(e, ast.UnaryOp) and isinstance(e.op, (ast.USub, ast.UAdd)):
+        a = _fold_int(e.operand)
+        return None if a is None else (-a if isinstance(e.op, ast.USub) else a)
+    if isinstance(e, ast.BinOp):
+        a, b = _fold_int(e.left), _fold_int(e.right)
+        if a is None or b is None:
+            return None
+        if isinstance(e.op, ast.Add):
+            return a + b
+        if isinstance(e.op, ast.Sub):
+            return a - b
+        if isinstance(e.op, ast.Mult):
+            return a * b
+        if isinstance(e.op, ast.FloorDiv) and b != 0:
+            return a // b
+        if isinstance(e.op, ast.Pow) and 0 <= b <= 64:
+            return a ** b
+    if isinstance(e, ast.Call) and pf.dotted(e.func) == 'int' and len(e.args) == 1 and not e.keywords:
+        return _fold_int(e.args[0])
+    return None
 
 
 def check_partitioning(ctx: Ctx, m: pf.Module) -> None:
@@ -909,7 +1453,9 @@ def check_partitioning(ctx: Ctx, m: pf.Module) -> None:
     cls = m.cls(CLS)
     for nm in ('default_genome_interval_size', 'default_exome_interval_size'):
         v = _class_assign(cls, nm)
-        ctx.check(isinstance(v, ast.Constant) and isinstance(v.value, int) and v.value >= 1, 'R5', f'{F}::{CLS}.{nm}',
+        val = _fold_int(v)
+        ctx.need(val is not None or isinstance(v, ast.Constant), f'{F}::{CLS}.{nm}: `{pf.nsrc(v)[:50]}` is not a literal integer expression')
+        ctx.check(val is not None and val >= 1, 'R5', f'{F}::{CLS}.{nm}',
                   f'{nm} = {pf.nsrc(v)} is not a positive integer: math.ceil(contig_length / interval_size) divides by it', m.path, v.lineno)
 
 
@@ -1008,11 +1554,17 @@ def _step_roots(cm: cf.ClassModel) -> List[str]:
         raise AnalysisError(f'anchor vanished: {CLS}.step')
     out: List[str] = []
 
+    try:
+        plan = set(_str_list(_class_assign(cm.cls, '__serialized_slots__'), f'{F}::{CLS}.__serialized_slots__', {}))
+    except AnalysisError:
+        plan = set()
+
     def mutates_state(name: str, seen: Tuple[str, ...] = ()) -> bool:
+        """The method changes the plan: a serialised slot (a helper that only bumps the job counter or fills a cache is not a step function)."""
         f = cm.methods.get(name)
         if f is None or name in seen:
             return False
-        if _mutations(f):
+        if any(a in plan or not plan for a, _n, _h in _mutations(f)):
             return True
         return any(isinstance(c.func, ast.Attribute) and cf.self_attr(c.func) is not None and mutates_state(cf.self_attr(c.func), seen + (name,))  # type: ignore[arg-type]
                    for c in pf.calls_in(f))
@@ -1165,9 +1717,10 @@ def check_paths(ctx: Ctx, m: pf.Module, cls: ast.ClassDef, ser: List[str], slots
         def bumps(n: pf.Node) -> bool:
             a = n.ast
             return isinstance(a, ast.AugAssign) and cf.self_attr(a.target) in (slot, f'_{CLS}{slot}') and isinstance(a.op, ast.Add)
+        fin_edge = lambda a, b, lab: lab != 'exc' and not (a.kind == 'test' and _implies_finished(a.ast, lab))  # noqa: E731
+        at_exit = lambda n: n is gs.exit  # noqa: E731
         for w in inter_nodes:
-            p = gs.path_avoiding(w, lambda n: n is gs.exit, bumps,
-                                 edge_ok=lambda a, b, lab: lab != 'exc' and not (a.kind == 'test' and _implies_finished(a.ast, lab)))
+            p = _firm(gs, gs.path_avoiding(w, at_exit, bumps, edge_ok=fin_edge), step_i, at_exit, bumps, f'{F}::{CLS}.step::self.{slot} advanced after every write', edge_ok=fin_edge)
             if p is not None:
                 return p
         return None
@@ -1219,6 +1772,8 @@ def check_paths(ctx: Ctx, m: pf.Module, cls: ast.ClassDef, ser: List[str], slots
             ctx.need(not unknown, f'{cons}: cannot resolve path component(s) {[cf.render(x) for x in unknown][:3]} of `{shown}`')
             wit = None
             for sl in sorted({x[1] for x in lv if x[0] == 'slot'}):
+                # a store the steps make to a component that is not a recognised counter bump (`self.x += <positive literal>`): whether it advances is not decided
+                ctx.need(sl not in other_stores, f'{cons}: self.{sl} is assigned by {sorted(set(other_stores.get(sl, [])))} in a form that is not recognised as a counter')
                 if sl in counters:
                     wit = advanced_after_every_write(sl)
             ctx.bad('R6', cons + '::steps',
@@ -1228,6 +1783,7 @@ def check_paths(ctx: Ctx, m: pf.Module, cls: ast.ClassDef, ser: List[str], slots
         # (c) within one step
         if v[0] == 'list' or r.in_loop(c):
             ok = any(x[0] in ('index', 'fresh') for x in lv)
+            ctx.need(ok or not unknown, f'{cons}: cannot resolve path component(s) {[cf.render(x) for x in unknown][:3]} of `{shown}`')
             ctx.check(ok, 'R6', cons + '::within-step', f'several datasets are written by one step under `{shown}`, which contains no per-dataset index: they all '
                       f'get the same path ({ow_txt}) and the plan lists that one path once per dataset', m.path, c.lineno, detail={'path': shown})
 
@@ -1256,20 +1812,31 @@ def check_paths(ctx: Ctx, m: pf.Module, cls: ast.ClassDef, ser: List[str], slots
         add_nodes = [n for c, _v in adds for n in nodes_of(c)]
         int_nodes = [n for c, _v in inters for n in g.node_of(c)]
         no_exc = lambda a, b, lab: lab != 'exc'  # noqa: E731
+        fin_edge = lambda a, b, lab: lab != 'exc' and not (a.kind == 'test' and _implies_finished(a.ast, lab))  # noqa: E731
+        never = lambda x: False  # noqa: E731
+        opaque = _plan_opaque([x for x in g.nodes if x.ast is not None], r.fn, _top_level_pending(cm, [x.name for x in roots])[1] & set(ser))
         for n in fin_nodes:
-            p = g.path_avoiding(g.entry, lambda x: x is n, lambda x: False,
-                                edge_ok=lambda a, b, lab: lab != 'exc' and not (a.kind == 'test' and _implies_finished(a.ast, lab)))
-            ctx.check(p is None, 'R9', cons + '::final write guarded by finished',
+            at_n = lambda x, n=n: x is n  # noqa: E731
+            c9 = cons + '::final write guarded by finished'
+            p = _firm(g, g.path_avoiding(g.entry, at_n, never, edge_ok=fin_edge), r.fn, at_n, never, c9, edge_ok=fin_edge)
+            ctx.check(p is None, 'R9', c9,
                       f'{r.name} can write the final dataset to self._output_path while the plan still has pending inputs (no `self.finished` test on the path '
                       f'{[repr(x) for x in (p or [])][-4:]}): the output is produced from a subset of the inputs and the rest is merged into intermediates nobody reads',
                       m.path, n.lineno)
-            q = g.path_avoiding(n, lambda x: x in add_nodes, lambda x: False, edge_ok=no_exc) if add_nodes else None
-            ctx.check(q is None, 'R9', cons + '::nothing recorded after the final write',
+            at_add = lambda x: x in add_nodes  # noqa: E731
+            c9 = cons + '::nothing recorded after the final write'
+            q = _firm(g, g.path_avoiding(n, at_add, never, edge_ok=no_exc), r.fn, at_add, never, c9, edge_ok=no_exc) if add_nodes else None
+            ctx.check(q is None, 'R9', c9,
                       f'after writing the final dataset {r.name} goes on to record an entry in the plan: `finished` becomes false again and run() merges it once more',
                       m.path, n.lineno)
         stop = set(id(x) for x in fin_nodes + add_nodes)
-        p = g.path_avoiding(g.entry, lambda x: x is g.exit, lambda x: id(x) in stop, edge_ok=no_exc)
-        ctx.check(p is None, 'R9', cons + '::merged data re-enters the plan',
+        at_exit = lambda x: x is g.exit  # noqa: E731
+        stops = lambda x: id(x) in stop  # noqa: E731
+        c9 = cons + '::merged data re-enters the plan'
+        p = _firm(g, g.path_avoiding(g.entry, at_exit, stops, edge_ok=no_exc), r.fn, at_exit, stops, c9, edge_ok=no_exc)
+        # "nothing is recorded on this path" is evidence only when every way of recording is visible
+        ctx.need(p is None or opaque is None, f'{c9}: {opaque}; whether the merged dataset is recorded is not decided')
+        ctx.check(p is None, 'R9', c9,
                   f'{r.name} can return normally after removing inputs from the plan without writing the final dataset or recording the merged dataset in the plan '
                   f'(path {[repr(x) for x in (p or [])][-4:]}): the inputs it consumed are lost', m.path, r.fn.lineno)
         for c, av in adds:
@@ -1281,12 +1848,19 @@ def check_paths(ctx: Ctx, m: pf.Module, cls: ast.ClassDef, ser: List[str], slots
                 ctx.need(pv is not None, f'{cons}: cannot tell which path `{pf.nsrc(c)[:60]}` records')
                 written = [(v[1] if v[0] == 'list' else v) for _c, v in inters]
                 ctx.need(not any(x[0] == 'unknown' for x in cf.leaves(pv)) or pv in written, f'{cons}: unresolved recorded path `{cf.render(pv)}`')
+                # a mismatch is evidence only when every written path is resolved too (and something is written here at all)
+                ctx.need(pv in written or (written and not any(x[0] == 'unknown' for w in written for x in cf.leaves(w))),
+                         f'{cons}: cannot resolve the path(s) the step writes ({[cf.render(w) for w in written][:2]}) to compare them with the recorded `{cf.render(pv)}`')
                 ctx.check(pv in written, 'R9', cons + '::recorded path is the written path',
                           f'{r.name} records `{cf.render(pv)}` in the plan but the datasets it writes are {[cf.render(w) for w in written]}: the next step (or a '
                           f'resumed run) reads a path nothing was written to', m.path, c.lineno)
             for n in g.node_of(c):
-                q = g.path_avoiding(g.entry, lambda x: x is n, lambda x: x in int_nodes, edge_ok=no_exc) if int_nodes else [g.entry]
-                ctx.check(q is None, 'R9', cons + '::written before recorded',
+                at_n = lambda x, n=n: x is n  # noqa: E731
+                wrote = lambda x: x in int_nodes  # noqa: E731
+                c9 = cons + '::written before recorded'
+                ctx.need(int_nodes, f'{c9}: no write of an intermediate dataset recognised in {r.name}')
+                q = _firm(g, g.path_avoiding(g.entry, at_n, wrote, edge_ok=no_exc), r.fn, at_n, wrote, c9, edge_ok=no_exc)
+                ctx.check(q is None, 'R9', c9,
                           f'{r.name} can record a dataset in the plan before (or without) writing it: a failure in between leaves an in-memory plan that names a '
                           f'dataset that does not exist', m.path, c.lineno)
 
@@ -1449,6 +2023,49 @@ def _norm_arith(e: ast.AST) -> str:
     return pf.nsrc(e)
 
 
+Poly = Dict[Tuple[str, ...], int]
+
+
+def _poly(e: ast.AST) -> Optional[Poly]:
+    """Polynomial normal form (monomial -> coefficient) of an integer expression over atoms `self.x` / local names / int literals with + - * and
+    unary minus; None when the expression contains anything else (a call, a division, a subscript ...)."""
+    if isinstance(e, ast.Constant) and type(e.value) is int:
+        return {(): e.value} if e.value else {}
+    if isinstance(e, ast.Name) or cf.self_attr(e) is not None:
+        return {(pf.nsrc(e),): 1}
+    if isinstance(e, ast.UnaryOp) and isinstance(e.op, (ast.USub, ast.UAdd)):
+        a = _poly(e.operand)
+        return None if a is None else ({k: -v for k, v in a.items()} if isinstance(e.op, ast.USub) else a)
+    if isinstance(e, ast.BinOp) and isinstance(e.op, (ast.Add, ast.Sub, ast.Mult)):
+        a, b = _poly(e.left), _poly(e.right)
+        if a is None or b is None:
+            return None
+        out: Poly = {}
+        if isinstance(e.op, ast.Mult):
+            for ka, va in a.items():
+                for kb, vb in b.items():
+                    k = tuple(sorted(ka + kb))
+                    out[k] = out.get(k, 0) + va * vb
+        else:
+            sign = 1 if isinstance(e.op, ast.Add) else -1
+            out = dict(a)
+            for kb, vb in b.items():
+                out[kb] = out.get(kb, 0) + sign * vb
+        return {k: v for k, v in out.items() if v}
+    return None
+
+
+def _same_amount(a: ast.AST, b: ast.AST) -> Optional[bool]:
+    """True / False when both expressions have a polynomial normal form (equal / different), None when one of them is not comparable that way
+    (textually equal expressions are the same amount whatever they contain)."""
+    if _norm_arith(a) == _norm_arith(b):
+        return True
+    pa, pb = _poly(a), _poly(b)
+    if pa is None or pb is None:
+        return None
+    return pa == pb
+
+
 def _factors(e: ast.AST) -> Optional[List[str]]:
     """Slots whose product the expression is (`self.a * self.b`), else None."""
     if isinstance(e, ast.BinOp) and isinstance(e.op, ast.Mult):
@@ -1518,17 +2135,29 @@ def check_progress(ctx: Ctx, m: pf.Module, cls: ast.ClassDef, ser: List[str]) ->
             by_base.setdefault(t.base_txt, ([], []))[0].append(t)
         for k in keeps:
             by_base.setdefault(k.base_txt, ([], []))[1].append(k)
-        top_bounds: Dict[str, str] = {}
+        top_bounds: Dict[str, ast.AST] = {}
         for base, (ts, ks) in by_base.items():
             cons = f'{cons0}::{base}'
             if len(ts) != len(ks):
+                slot0 = (ts or ks)[0].slot
+                opaque = _plan_opaque([x for x in r.g.nodes if x.ast is not None], r.fn, _top_level_pending(cm, [x.name for x in roots])[1] & set(ser))
                 if not ks:
                     # `del base` under `len(taken) == len(base)` is the other way of keeping nothing; a take with neither is reuse
                     dels = [st for st in pf.walk_shallow(r.fn) if isinstance(st, ast.Delete) and any(pf.nsrc(x) == base for x in st.targets)]
+                    if not dels:
+                        # evidence of "never removed": NOTHING in the step (helpers inlined) changes the slot - no store, no delete, no mutating call
+                        changes = [n for a, n, _h in _mutations(r.fn) if a == slot0 and not (isinstance(n, ast.Call) and isinstance(n.func, ast.Attribute) and n.func.attr in PLAN_ADD)]
+                        ctx.need(not changes and opaque is None, f'{cons}: `{pf.nsrc(ts[0].st)[:60]}` is taken and self.{slot0} is changed by '
+                                 f'`{pf.nsrc(changes[0])[:50] if changes else opaque}`; whether that removes exactly the taken entries is not recognised')
                     ctx.check(bool(dels), 'R8', cons + '::take without drop', f'{r.name} takes `{pf.nsrc(ts[0].st)[:70]}` for merging but never removes those entries from '
                               f'`{base}`: the same inputs are taken again by the next step (merged twice, and the plan never empties)', m.path, ts[0].st.lineno)
                     continue
                 if not ts:
+                    # evidence of "not taken": the removed list is read nowhere else in the step, so nothing can have been taken from it
+                    keep_nodes = {id(x) for k in ks for x in ast.walk(k.st)}
+                    other_reads = [x for x in ast.walk(r.fn) if isinstance(x, ast.Attribute) and isinstance(x.ctx, ast.Load) and cf.self_attr(x) == slot0 and id(x) not in keep_nodes]
+                    ctx.need(not other_reads and opaque is None, f'{cons}: `{pf.nsrc(ks[0].st)[:60]}` shortens the list and self.{slot0} is also read elsewhere in the step; '
+                             f'how the removed entries are taken is not recognised')
                     ctx.bad('R8', cons + '::drop without take', f'{r.name} removes entries from the plan (`{pf.nsrc(ks[0].st)[:70]}`) without taking them for merging: '
                             f'those inputs are in no dataset', m.path, ks[0].st.lineno)
                     continue
@@ -1537,7 +2166,10 @@ def check_progress(ctx: Ctx, m: pf.Module, cls: ast.ClassDef, ser: List[str]) ->
                 (tk, tn), (kk, kn) = t.shape(), k.shape()
                 ctx.need(tk in COMPLEMENT and tn is not None, f'{cons}: unrecognised slice `{pf.nsrc(t.st)[:70]}`')
                 ctx.need(kn is not None and kk in ('tail', 'butlast', 'head', 'last'), f'{cons}: unrecognised slice `{pf.nsrc(k.st)[:70]}`')
-                ok = COMPLEMENT[tk] == kk and _norm_arith(tn) == _norm_arith(kn)
+                same = _same_amount(tn, kn)
+                # different bounds are evidence only in polynomial normal form (`[:n]` / `[len(taken):]` partition the list as well)
+                ctx.need(same is not None or COMPLEMENT[tk] != kk, f'{cons}: cannot compare the bounds `{pf.nsrc(tn)[:40]}` and `{pf.nsrc(kn)[:40]}` of the taken and the kept slice')
+                ok = COMPLEMENT[tk] == kk and bool(same)
                 ctx.check(ok, 'R8', cons + f'::{tk} taken, rest kept',
                           f'{r.name} merges `{pf.nsrc(t.st)[:80]}` but keeps `{pf.nsrc(k.st)[:80]}`: the two slices do not partition the list - '
                           + ('entries between them are dropped without being merged' if COMPLEMENT.get(tk) == kk else 'entries are merged and also kept, or dropped unmerged')
@@ -1545,11 +2177,13 @@ def check_progress(ctx: Ctx, m: pf.Module, cls: ast.ClassDef, ser: List[str]) ->
                 # the take must read the list before the keep replaces it
                 tn_nodes, kn_nodes = r.g.node_of(t.st), r.g.node_of(k.st)
                 ctx.need(tn_nodes and kn_nodes, f'{cons}: slice statements not found in the CFG')
-                q = r.g.path_avoiding(r.g.entry, lambda x: x in kn_nodes, lambda x: x in tn_nodes)
+                at_k = lambda x: x in kn_nodes  # noqa: E731
+                at_t = lambda x: x in tn_nodes  # noqa: E731
+                q = _firm(r.g, r.g.path_avoiding(r.g.entry, at_k, at_t), r.fn, at_k, at_t, cons + f'::{tk} taken before the rest is kept')
                 ctx.check(q is None, 'R8', cons + f'::{tk} taken before the rest is kept', f'{r.name} can execute `{pf.nsrc(k.st)[:70]}` before `{pf.nsrc(t.st)[:70]}`: '
                           f'the slice that is merged is taken from the already shortened list, so the first entries are dropped unmerged', m.path, k.st.lineno)
                 if pf.nsrc(t.base) == f'self.{t.slot}' and ok:
-                    top_bounds[t.slot] = _norm_arith(tn)
+                    top_bounds[t.slot] = tn
                     # progress: the number of entries removed per step
                     fs = _factors(kn)
                     if kk == 'tail':
@@ -1569,9 +2203,11 @@ def check_progress(ctx: Ctx, m: pf.Module, cls: ast.ClassDef, ser: List[str]) ->
                         expr_reqs.append((r.name, tn, 2, f'{r.name} replaces up to `{pf.nsrc(tn)}` entries of self.{t.slot} by one merged entry', t.st.lineno))
         if len(top_bounds) >= 2:
             lockstep.append((r.name, sorted(top_bounds)))
-            vals = set(top_bounds.values())
-            ctx.check(len(vals) == 1, 'R8', cons0 + '::lists consumed in lockstep', f'{r.name} consumes the parallel lists {sorted(top_bounds)} by different amounts '
-                      f'{top_bounds}: after the first step the i-th name no longer belongs to the i-th input', m.path, r.fn.lineno)
+            bs = list(top_bounds.values())
+            sames = [_same_amount(bs[0], b2) for b2 in bs[1:]]
+            ctx.need(all(x is not None for x in sames), f'{cons0}: cannot compare the amounts {[pf.nsrc(b2)[:30] for b2 in bs]} by which the parallel lists are consumed')
+            ctx.check(all(sames), 'R8', cons0 + '::lists consumed in lockstep', f'{r.name} consumes the parallel lists {sorted(top_bounds)} by different amounts '
+                      f'{ {k: _norm_arith(v) for k, v in top_bounds.items()} }: after the first step the i-th name no longer belongs to the i-th input', m.path, r.fn.lineno)
         # range(..., step) over the taken files
         for c in pf.calls_in(r.fn):
             if pf.dotted(c.func) == 'range' and len(c.args) == 3:
@@ -1599,6 +2235,7 @@ def check_progress(ctx: Ctx, m: pf.Module, cls: ast.ClassDef, ser: List[str]) ->
             test = st.test if isinstance(st, (ast.If, ast.Assert)) else None
             if test is None:
                 continue
+            test = pf.expand_locals(init_i, test)
             for cmp in [x for x in ast.walk(test) if isinstance(x, ast.Compare) and len(x.ops) == 1]:
                 sides = {pf.nsrc(cmp.left), pf.nsrc(cmp.comparators[0])}
                 if sides == lens:
@@ -1607,6 +2244,12 @@ def check_progress(ctx: Ctx, m: pf.Module, cls: ast.ClassDef, ser: List[str]) ->
                     if (isinstance(cmp.ops[0], ast.NotEq) and raises) or (isinstance(cmp.ops[0], ast.Eq) and isinstance(st, ast.Assert)):
                         found = True
         ctx.need(found or not mention, f'{F}::{CLS}.__init__: unrecognised comparison of {sorted(lens)}')
+        if not found:
+            # "no check" is evidence only when nothing else in the constructor could be the check: the lists are not handed to a function
+            # and no length of them is held in a local that a later test reads
+            seen_by = _consumers(init_i, set(ps))  # type: ignore[arg-type]
+            ctx.need(not seen_by, f'{F}::{CLS}.__init__: {sl} are consumed in lockstep and their parameters are passed to `{seen_by[0] if seen_by else ""}`; '
+                     f'whether that validates their lengths is not recognised')
         ctx.check(found, 'R8', f'{F}::{CLS}.__init__::{"/".join(sl)} same length', f'{rname} consumes {sl} in lockstep but __init__ (which also rebuilds the object '
                   f'from a saved plan) does not reject {sorted(lens)} of different lengths: a plan with fewer names than inputs mislabels or drops samples',
                   m.path, init_i.lineno)
@@ -1657,10 +2300,14 @@ def check_chunking(ctx: Ctx, m: pf.Module, roots: List[_Root]) -> None:
                         continue
                     cons = f'{F}::{CLS}.{r.name}::chunks of {pf.nsrc(sub.value)}'
                     ctx.need(start0 and covered and sl.step is None, f'{cons}: unrecognised chunking loop `{pf.nsrc(it)}`')
-                    lo_ok = isinstance(sl.lower, ast.Name) and sl.lower.id == var
+                    lo = pf.expand_locals(r.fn, sl.lower) if sl.lower is not None else ast.Constant(value=0)
                     up = pf.expand_locals(r.fn, sl.upper) if sl.upper is not None else None
-                    up_ok = isinstance(up, ast.BinOp) and isinstance(up.op, ast.Add) and _norm_arith(up) == _norm_arith(
-                        ast.BinOp(left=ast.Name(id=var, ctx=ast.Load()), op=ast.Add(), right=pf.expand_locals(r.fn, it.args[2])))
+                    want = ast.BinOp(left=ast.Name(id=var, ctx=ast.Load()), op=ast.Add(), right=pf.expand_locals(r.fn, it.args[2]))
+                    lo_s = _same_amount(lo, ast.Name(id=var, ctx=ast.Load()))
+                    up_s = _same_amount(up, want) if up is not None else None
+                    # other bounds are evidence only when they are polynomials in the loop variable and the stride (`xs[i:min(i + k, n)]` is the same chunk)
+                    ctx.need(lo_s is not None and up_s is not None, f'{cons}: cannot compare the chunk `{pf.nsrc(sub)[:60]}` with the stride of `{pf.nsrc(it)[:50]}`')
+                    lo_ok, up_ok = bool(lo_s), bool(up_s)
                     ctx.check(lo_ok and up_ok, 'R8', cons, f'{r.name} walks `{pf.nsrc(it)}` but merges `{pf.nsrc(sub)}`: the chunks do not partition the batch - '
                               f'entries between two chunks are in no dataset, or entries are in two (chunk stride `{k}`)', m.path, sub.lineno)
 
@@ -2050,11 +2697,43 @@ def check_ctor_inputs(ctx: Ctx, m: pf.Module, cm: cf.ClassModel, ser: List[str])
             top = any(isinstance(st, ast.Expr) and st.value is adds[0] for st in lp.body)
             same = len(adds[0].args) == 1 and isinstance(adds[0].args[0], ast.Name) and adds[0].args[0].id == lp.target.id
             skips = any(isinstance(x, (ast.Continue, ast.Break)) for x in ast.walk(lp))
+            ctx.need(same, f'{cons}: the loop appends `{pf.nsrc(adds[0].args[0])[:50] if adds[0].args else ""}`, not the element itself; whether every element is kept is not recognised')
+            if not top:
+                # conditional (positive evidence) only when the append sits directly under an `if` of the loop body
+                under_if = any(isinstance(st, ast.If) and any(x is adds[0] for x in ast.walk(st)) for st in lp.body)
+                ctx.need(under_if, f'{cons}: unrecognised position of `{pf.nsrc(adds[0])[:50]}` in the loop')
             verdicts.append((top and same and not skips, lp, f'the loop over `{p}` does not append every element (`{pf.nsrc(adds[0])[:60]}` is conditional or appends something else)'))
         ctx.need(verdicts, f'{cons}: no store found')
         bad = [v for v in verdicts if not v[0]]
         ctx.check(not bad, 'R8', cons, (bad[0][2] if bad else '') + f': inputs given to the constructor - or listed in the saved plan it is rebuilt from - never enter '
                   f'self.{slot}, so they are in no dataset', m.path, (bad[0][1] if bad else verdicts[0][1]).lineno)
+
+
+def _consumers(fn: pf.FuncDef, names: Set[str]) -> List[str]:
+    """Calls in fn (helpers already inlined where possible) that receive one of the given names - directly, through `len(name)` or through a local
+    computed from it - and are not known to be harmless (builtins that only read, loggers, exception constructors, record constructors)."""
+    defs = pf.assignments(fn)
+    tainted = set(names)
+    grew = True
+    while grew:
+        grew = False
+        for nm, ds in defs.items():
+            if nm not in tainted and any(isinstance(d, ast.expr) and (pf.names_in(d) & tainted) for d in ds):
+                tainted.add(nm)
+                grew = True
+    out: List[str] = []
+    raised = {id(x) for st in pf.walk_shallow(fn) if isinstance(st, ast.Raise) and st.exc is not None for x in ast.walk(st.exc)}
+    for c in pf.calls_in(fn):
+        if id(c) in raised:
+            continue
+        d = pf.dotted(c.func) or ''
+        if d in _PURE_CALLEES or d in ('set', 'frozenset', 'collections.defaultdict', 'defaultdict', 'uuid.uuid4', 'hl.tlocus', 'isinstance'):
+            continue
+        if isinstance(c.func, ast.Attribute) and c.func.attr in ('append', 'extend', 'add', 'update', 'format', 'join', 'get', 'items', 'values', 'keys'):
+            continue
+        if any(pf.names_in(a) & tainted for a in list(c.args) + [k.value for k in c.keywords]):
+            out.append(pf.nsrc(c)[:60])
+    return out
 
 
 def _int_params(fn: pf.FuncDef) -> List[str]:
@@ -2097,7 +2776,7 @@ def check_sizes(ctx: Ctx, m: pf.Module, cm: cf.ClassModel, need: Dict[str, Tuple
                 defaults[a.arg] = dv
     accepted: Dict[str, cf.Iv] = {}
 
-    def report(cons: str, slot: str, iv: Optional[cf.Iv], wit, line: int, who: str, entry_note: str = '') -> None:
+    def report(cons: str, slot: str, iv: Optional[cf.Iv], wit, line: int, who: str, entry_note: str = '', validators: Sequence[str] = ()) -> None:
         bound, why = need[slot]
         if iv is None or bound == -cf.INF:
             return
@@ -2105,6 +2784,7 @@ def check_sizes(ctx: Ctx, m: pf.Module, cm: cf.ClassModel, need: Dict[str, Tuple
             ctx.ok('R7', cons, {'interval': repr(iv), 'needs': f'>= {bound}'})
             return
         ctx.need(wit is not None, f'{cons}: the interval analysis gives self.{slot} in {iv} (needs >= {bound}) but no concrete input reaching a smaller value was found')
+        ctx.need(not validators, f'{cons}: the value reaches `{validators[0] if validators else ""}`, which may reject it; not followed')
         got = wit.get(f'=> self.{slot}')
         inp = ', '.join(f'{k}={v}' for k, v in wit.items() if not k.startswith('=>'))
         ctx.bad('R7', cons, f'{who} can leave self.{slot} = {got} (interval {iv}; {why}, so it must be >= {bound}){entry_note}: with {inp} the stored value is {got}. '
@@ -2117,7 +2797,8 @@ def check_sizes(ctx: Ctx, m: pf.Module, cm: cf.ClassModel, need: Dict[str, Tuple
         ctx.need(iv is not None, f'{cons}: __init__ does not set the slot')
         accepted[slot] = iv if iv.lo >= bound else cf.Iv(bound, cf.INF)
         p = param_of_slot.get(slot)
-        report(cons, slot, iv, wit, init_i.lineno, f'the constructor (also run by Decoder._object_hook on every reload; parameter `{p}`)')
+        report(cons, slot, iv, wit, init_i.lineno, f'the constructor (also run by Decoder._object_hook on every reload; parameter `{p}`)',
+               validators=_consumers(init_i, {p} if p else set()) if (iv is not None and iv.lo < bound) else ())
 
     # property setters
     for prop in sorted(cm.setters):
@@ -2134,7 +2815,8 @@ def check_sizes(ctx: Ctx, m: pf.Module, cm: cf.ClassModel, need: Dict[str, Tuple
             cons = f'{F}::{CLS}.{prop}.setter::self.{slot}'
             pv = defaults.get(param_of_slot.get(slot, ''), None)
             iv, wit, _n = _analyse_writer(cons, fn_s.body, fn_s.args.args[0].arg, consts, entry, slot, bound, {ps[0]: pv} if pv is not None else {})
-            report(cons, slot, iv, wit, fn_s.lineno, f'the public setter `{prop}`', f' although it is given a value the constructor accepts ({ps[0]} in {accepted[slot]})')
+            report(cons, slot, iv, wit, fn_s.lineno, f'the public setter `{prop}`', f' although it is given a value the constructor accepts ({ps[0]} in {accepted[slot]})',
+                   validators=_consumers(fn_s, {ps[0]}) if (iv is not None and iv.lo < bound) else ())
 
     # other stores (1): methods of the class other than __init__ / setters.  A private helper that other methods call is analysed where it is
     # inlined (with the arguments of that call); every other method is an entry point: its own parameters are unconstrained, the object
@@ -2199,7 +2881,9 @@ def check_sizes(ctx: Ctx, m: pf.Module, cm: cf.ClassModel, need: Dict[str, Tuple
             cons = f'{F}::{q}::{obj}.{attr} = {pf.nsrc(getattr(st, "value", st))[:50]}'
             iv, wit, _n = _analyse_writer(cons, g.body, obj, consts, e2, slot, bound, {forwarded[p]: defaults[p]} if p in forwarded and p in defaults else {})
             ctx.need(iv is not None, f'{cons}: store not reached by the interval analysis')
-            report(cons, slot, iv, wit, st.lineno, f'`{pf.nsrc(st)[:70]}` in {q}', note)
+            vnames = pf.names_in(getattr(st, 'value', st)) - {obj}
+            report(cons, slot, iv, wit, st.lineno, f'`{pf.nsrc(st)[:70]}` in {q}', note,
+                   validators=_consumers(g, vnames) if (iv is not None and iv.lo < bound and vnames) else ())
     if ctx.tier == 'thorough':
         # closure: nobody else in the Python package stores to these attributes
         n_files = 0
@@ -2279,6 +2963,28 @@ def check_plan_identity(ctx: Ctx, m: pf.Module) -> None:
                     hashed |= pf.names_in(cur.iter)
                     names = names | pf.names_in(cur.iter)
                 cur = par.get(cur)
+    # data given to the hash constructor (`hashlib.sha256(x.encode())`) is hashed too
+    for n0, ds in defs.items():
+        if n0 in hashers:
+            for d in ds:
+                if isinstance(d, ast.Call):
+                    for a in list(d.args) + [k.value for k in d.keywords]:
+                        hashed |= pf.names_in(a)
+    # "nothing feeds the digest" is evidence only when every use of the hash object is an update / digest call seen above: the object must not be
+    # handed to a helper, aliased, or used inside a nested function
+    escapes: List[str] = []
+    for x in ast.walk(nc):
+        if isinstance(x, ast.Name) and x.id in hashers and isinstance(x.ctx, ast.Load):
+            pr = par.get(x)
+            ok_use = isinstance(pr, ast.Attribute) and pr.value is x and pr.attr in ('update', 'hexdigest', 'digest') and isinstance(par.get(pr), ast.Call) and par[pr].func is pr  # type: ignore[union-attr]
+            cur = pr
+            nested = False
+            while cur is not None and cur is not nc:
+                if isinstance(cur, (ast.FunctionDef, ast.AsyncFunctionDef, ast.Lambda)):
+                    nested = True
+                cur = par.get(cur)
+            if not ok_use or nested:
+                escapes.append(pf.nsrc(pr if pr is not None else x)[:50])
     ctx.need(n_upd >= 3, f'{where}: fewer than 3 hash updates found')
     # the digest names the save path
     flows = False
@@ -2293,6 +2999,7 @@ def check_plan_identity(ctx: Ctx, m: pf.Module) -> None:
             elif isinstance(x, ast.Name) and x.id not in seen_names and depth < 4:
                 seen_names.add(x.id)
                 work += [(d, depth + 1) for d in defs.get(x.id, []) if isinstance(d, ast.expr)]
+    ctx.need(flows or (not escapes and defs.get('save_path')), f'{where}: how the generated save path is computed is not followed (the hash object is used as `{escapes[0] if escapes else "?"}`)')
     ctx.check(flows, 'R11', f'{where}::digest names the save path', 'the generated save_path does not contain the digest of the arguments: plans of different '
               'combines share one file and new_combiner resumes the wrong one', m.path, nc.lineno)
 
@@ -2319,6 +3026,7 @@ def check_plan_identity(ctx: Ctx, m: pf.Module) -> None:
                 ctx.need(dp, f'{where}: cannot tell which arguments `{n}` (passed as `{k.arg}`) is computed from')
                 cand |= dp  # the parameters a local is computed from
         ok = bool(cand & hashed)
+        ctx.need(ok or not escapes, f'{cons}: the hash object is also used as `{escapes[0] if escapes else ""}`; what is fed to it there is not followed')
         ctx.check(ok, 'R11', cons, f'new_combiner passes `{k.arg}={pf.nsrc(k.value)}` to the constructor but nothing it is computed from ({sorted(cand & (params | set(defs)))[:6]}) '
                   f'feeds the digest that names the generated save path: a second call with a different `{k.arg}` finds the plan of the first call at the same path '
                   f'and resumes it (maybe_load_from_saved_path re-applies only {sorted(overrides)}) - the output is built from the other call\'s inputs', m.path, k.value.lineno)
@@ -2463,8 +3171,14 @@ def check_save_consistency(ctx: Ctx, m: pf.Module, cls: ast.ClassDef, ser: List[
                   f'they are missing from the output', m.path, hit[0].lineno if hit else r.fn.lineno, detail={'halfway_nodes': len(dirty), 'can_fail_halfway': bool(raisers)})
         # (b) no normal return with the plan half-way (a handler that swallows the failure)
         p = None
+        at_exit = lambda x, r=r: x is r.g.exit  # noqa: E731
+        is_commit = lambda x: x in commits  # noqa: E731
+        c12 = cons + '::returns only with the result recorded'
         for n in removals:
-            p = p or r.g.path_avoiding(n, lambda x: x is r.g.exit, lambda x: x in commits)
+            p = p or _firm(r.g, r.g.path_avoiding(n, at_exit, is_commit), r.fn, at_exit, is_commit, c12)
+        if p is not None:
+            opaque = _plan_opaque([x for x in r.g.nodes if x.ast is not None], r.fn, pending)
+            ctx.need(opaque is None, f'{c12}: {opaque}; whether the result is recorded on that path is not decided')
         if p is not None:
             norm_dirty[r.name] = f'{r.name} can return normally with its inputs removed and nothing recorded (path {[repr(x) for x in p][-4:]})'
             ctx.bad('R12', cons + '::returns only with the result recorded', norm_dirty[r.name] + ': run() then saves that plan and carries on; the inputs of the '
@@ -2622,9 +3336,12 @@ def run(ctx: Ctx) -> None:
     ctx.assume('hl.Interval(start, end, includes_start, includes_end) denotes the locus positions start..end with the stated closedness')
     ctx.assume('uuid.uuid4 / uuid1 / secrets / os.urandom / clock reads never repeat a value (closed table FRESH in engines/c38facts.py); uuid5 / uuid3 / hashes are functions of their arguments')
     ctx.assume('a caller of a public setter, and the resume path of new_combiner, pass values the constructor would accept (the same value is forwarded to the validating constructor on the fresh path)')
-    m = pf.load(F)
+    m = cn.normalise_class(pf.load(F), CLS)  # behaviour-preserving normal form (engines/c38norm.py): `x = x + 1`, bound-method dispatch, bin aliases
     ctx.unit('files', 2)
     cls = m.cls(CLS)
+    _FINISHED_LIKE.clear()
+    _FINISHED_LIKE.add('finished')
+    _note_finished_like(cf.ClassModel(m, CLS))
     ser, _slots = check_slots(ctx, m, cls)
     declined: List[str] = []
     for part in (lambda: check_roundtrip(ctx, m, cls, ser), lambda: check_run(ctx, m, cls), lambda: check_paths(ctx, m, cls, ser, _slots),
